@@ -1,10 +1,15 @@
-// Engine h_control: property C02 -- control planners' solutions replay through the propagator to the goal.
+// Engine h_control: control planners (control::RRT with/without intermediate states, SST, EST, KPIECE1, PDST, SyclopRRT, SyclopEST)
+// on three harness-owned dynamical systems in generated obstacle worlds.
+//   C02 solutions replay through the propagator to the goal
+//   C03 interruption at every evaluation index / resumed solves / clear and new-query histories / state and control leaks
+//   C20 same seed => same bytes (fingerprints compared across processes by the driver)
 //
-// One case = one (planner variant, dynamical system, world, start/goal, planner parameters, seed) tuple, all drawn from
+// C02: one case = one (planner variant, dynamical system, world, start/goal, planner parameters, seed) tuple, all drawn from
 // vf::Rng(caseSeed).  The planner is run once on a fresh problem definition under an evaluation-counting termination
 // condition; whatever it registers in the problem definition is then replayed with the harness's own copy of the
 // propagator: every recorded (control, duration) is applied as n = duration/stepSize steps of stepSize from the
 // *recorded* state i, every intermediate state must be valid, and the result must be the recorded state i+1.
+// C03 and C20 re-use the same registry, systems, world generator, termination condition and replay oracle.
 #include "common.h"
 
 #include <ompl/base/ProblemDefinition.h>
@@ -16,6 +21,7 @@
 #include <ompl/base/spaces/RealVectorStateSpace.h>
 #include <ompl/base/spaces/SE2StateSpace.h>
 #include <ompl/control/PathControl.h>
+#include <ompl/control/PlannerData.h>
 #include <ompl/control/SimpleDirectedControlSampler.h>
 #include <ompl/control/SpaceInformation.h>
 #include <ompl/control/StatePropagator.h>
@@ -397,102 +403,144 @@ namespace
         return std::vector<double>(v, v + sys.ncomp());
     }
 
-    void runCaseImpl(Sink &sink, const Args &a, long c, std::string &label);
 
-    void runCase(Sink &sink, const Args &a, long c)
+    // ---- allocation-counting spaces (C03): every allocState/freeState and allocControl/freeControl goes through a live set --
+    // (the counterpart of pl::Counting in planners_common.h; control planners are single-threaded, so no lock)
+    struct Tracker
     {
-        // wall-clock is a statistic only (slowest case, for budgeting); it never influences a case or a verdict
-        const auto t0 = std::chrono::steady_clock::now();
-        std::string label;
-        runCaseImpl(sink, a, c, label);
-        const double dt = std::chrono::duration<double>(std::chrono::steady_clock::now() - t0).count();
-        sink.maxstat("c02_slowest_case_seconds", dt);
-        if (dt > 10)
+        std::unordered_set<const void *> live;
+        long allocs = 0, frees = 0, badFrees = 0;
+        void onAlloc(const void *p)
         {
-            sink.count("c02_cases_over_10s");
-            fprintf(stderr, "slow case %ld (%s): %.1f s\n", c, label.c_str(), dt);
+            live.insert(p);
+            ++allocs;
         }
-    }
+        // false when the pointer is not a live object of this space (double free / foreign pointer): not forwarded
+        bool onFree(const void *p)
+        {
+            auto it = live.find(p);
+            if (it == live.end())
+            {
+                ++badFrees;
+                return false;
+            }
+            live.erase(it);
+            ++frees;
+            return true;
+        }
+        long liveCount() const { return (long)live.size(); }
+    };
 
-    void runCaseImpl(Sink &sink, const Args &a, long c, std::string &label)
+    template <class Base>
+    struct CountingSpace : Base
     {
-        Rng rng(caseSeed(a, c));
-        const uint32_t libSeed = (uint32_t)(caseSeed(a, c, 1) % 1000000000ULL + 1);
-        ompl::RNG::setSeed(libSeed);
+        std::shared_ptr<Tracker> tr;
+        using Base::Base;
+        ob::State *allocState() const override
+        {
+            ob::State *s = Base::allocState();
+            if (tr) tr->onAlloc(s);
+            return s;
+        }
+        void freeState(ob::State *s) const override
+        {
+            if (!tr || tr->onFree(s)) Base::freeState(s);
+        }
+    };
 
-        const int combo = (int)((c + c / 16) % 24);
-        const int pl = combo % 8, sk = combo / 8;
-        const std::string P = PLANNERS[pl], S = SYSTEMS[sk];
-        label = P + "/" + S;
-        uint64_t hash = hmix(hmix(hashStr(P), hashStr(S)), libSeed);
-        auto H = [&](double v) { hash = hmixd(hash, v); return v; };
+    struct CountingControlSpace : oc::RealVectorControlSpace
+    {
+        std::shared_ptr<Tracker> tr;
+        using oc::RealVectorControlSpace::RealVectorControlSpace;
+        oc::Control *allocControl() const override
+        {
+            oc::Control *c = oc::RealVectorControlSpace::allocControl();
+            if (tr) tr->onAlloc(c);
+            return c;
+        }
+        void freeControl(oc::Control *c) const override
+        {
+            if (!tr || tr->onFree(c)) oc::RealVectorControlSpace::freeControl(c);
+        }
+    };
 
-        // ---- world ------------------------------------------------------------------------------------------
+    // ---- scenario: world, system, query and planner of one case --------------------------------------------------------
+    // The generator of C02, cut into stages that draw from the caller's Rng in the original order (world, start/goal
+    // positions, system, query, planner parameters, budget), so that C02 generates exactly the cases it always did and the
+    // C03 / C20 modes generate worlds of the same family.
+    struct Pos
+    {
+        double sx = 0, sy = 0, gx = 0, gy = 0, s2x = 0, s2y = 0;
+    };
+
+    // one query on a scenario: start states, goal and the problem definition holding them
+    struct Query
+    {
+        Pos p;
+        std::vector<ob::ScopedState<>> starts;
+        ob::ProblemDefinitionPtr pdef;
+        int goalKind = 0;
+        double thr = 0;
+        bool onlyInvalidStarts = false;
+    };
+
+    struct Scen
+    {
+        // ---- inputs
+        int pl = 0, sk = 0;
+        std::string P, S;
+        bool thorough = false;
+        double slowfrac = 0.03;
+        Sink *gsink = nullptr;                // receives the generation counters (C02 only)
+        std::shared_ptr<Tracker> stTr, ctTr;  // non-null: counting state / control spaces
+        uint64_t hash = 0;
+        // ---- world
         World w;
-        w.W = H(rng.uni(6, 14));
-        w.H = H(rng.uni(6, 14));
-        {
-            int k = rng.range(0, 2);
-            w.x0 = H(k == 0 ? 0. : k == 1 ? -w.W / 2 : rng.uni(-20, 20));
-            k = rng.range(0, 2);
-            w.y0 = H(k == 0 ? 0. : k == 1 ? -w.H / 2 : rng.uni(-20, 20));
-        }
-        const double mn = std::min(w.W, w.H);
-        double lay = rng.u01();
-        int layout = lay < 0.1 ? 0 : lay < 0.65 ? 1 : 2;
+        double mn = 0;
+        int layout = 0;
         bool wallVertical = true;
         double wallPos = 0;
-        auto scatter = [&](int k) {
-            for (int i = 0; i < k; ++i)
-            {
-                Obst o;
-                if (rng.coin())
-                {
-                    o.type = 0;
-                    o.a = w.x0 + rng.uni(0, w.W);
-                    o.b = w.y0 + rng.uni(0, w.H);
-                    o.c = rng.uni(0.3, 0.3 + 0.12 * mn);
-                    o.d = 0;
-                }
-                else
-                {
-                    o.type = 1;
-                    double bw = rng.uni(0.4, 0.25 * w.W), bh = rng.uni(0.4, 0.25 * w.H);
-                    o.a = w.x0 + rng.uni(0, w.W - bw);
-                    o.b = w.y0 + rng.uni(0, w.H - bh);
-                    o.c = o.a + bw;
-                    o.d = o.b + bh;
-                }
-                w.obs.push_back(o);
-            }
-        };
-        if (layout == 1)
-            scatter(rng.range(1, 7));
-        else if (layout == 2)
+        Pos pos;  // positions of the first query
+        // ---- system
+        Sys sys;
+        unsigned minD = 1, maxD = 1;
+        ob::RealVectorBounds xyb{2};
+        bool creeping = false;
+        double cscale = 1.0;
+        std::shared_ptr<oc::SpaceInformation> si;
+        Validity valid{nullptr, nullptr, nullptr};
+        unsigned kdir = 1;
+        double h = 0, scale = 0, tol = 0;
+        // ---- planner parameters
+        bool sstStopAtFirst = false, regionalNN = false;
+
+        Scen() = default;
+        Scen(const Scen &) = delete;
+        Scen &operator=(const Scen &) = delete;
+
+        double H(double v)
         {
-            wallVertical = rng.coin();
-            double ext = wallVertical ? w.W : w.H, oth = wallVertical ? w.H : w.W;
-            double e0 = wallVertical ? w.x0 : w.y0, o0 = wallVertical ? w.y0 : w.x0;
-            wallPos = e0 + ext * rng.uni(0.35, 0.65);
-            double th = rng.uni(0.2, 1.0), gw = rng.uni(1.0, 3.0), gc = o0 + rng.uni(gw / 2, oth - gw / 2);
-            Obst lo{1, 0, 0, 0, 0}, hi{1, 0, 0, 0, 0};
-            if (wallVertical)
-            {
-                lo = Obst{1, wallPos - th / 2, o0 - 1, wallPos + th / 2, gc - gw / 2};
-                hi = Obst{1, wallPos - th / 2, gc + gw / 2, wallPos + th / 2, o0 + oth + 1};
-            }
-            else
-            {
-                lo = Obst{1, o0 - 1, wallPos - th / 2, gc - gw / 2, wallPos + th / 2};
-                hi = Obst{1, gc + gw / 2, wallPos - th / 2, o0 + oth + 1, wallPos + th / 2};
-            }
-            w.obs.push_back(lo);
-            w.obs.push_back(hi);
-            scatter(rng.range(0, 2));
+            hash = hmixd(hash, v);
+            return v;
         }
-        // start / goal positions
-        double sx = 0, sy = 0, gx = 0, gy = 0, s2x = 0, s2y = 0;
-        auto drawFree = [&](double &x, double &y, double clearance) {
+        void note(const std::string &counter)
+        {
+            if (gsink) gsink->count(counter);
+        }
+        template <class T, class... A>
+        std::shared_ptr<T> mkSpace(A &&...args)
+        {
+            if (stTr)
+            {
+                auto sp = std::make_shared<CountingSpace<T>>(std::forward<A>(args)...);
+                sp->tr = stTr;
+                return sp;
+            }
+            return std::make_shared<T>(std::forward<A>(args)...);
+        }
+
+        bool drawFree(Rng &rng, double &x, double &y, double clearance) const
+        {
             for (int t = 0; t < 300; ++t)
             {
                 x = w.x0 + rng.uni(0.4, w.W - 0.4);
@@ -501,257 +549,372 @@ namespace
                     return true;
             }
             return false;
-        };
-        bool placed = false;
-        for (int attempt = 0; attempt < 2 && !placed; ++attempt)
+        }
+        // start and goal position: free, far apart, on different sides of the wall
+        bool place(Rng &rng, Pos &p) const
         {
-            for (int t = 0; t < 200 && !placed; ++t)
+            for (int t = 0; t < 200; ++t)
             {
-                if (!drawFree(sx, sy, 0.25) || !drawFree(gx, gy, 0.25))
+                if (!drawFree(rng, p.sx, p.sy, 0.25) || !drawFree(rng, p.gx, p.gy, 0.25))
                     break;
-                if (std::hypot(sx - gx, sy - gy) < 0.4 * mn)
+                if (std::hypot(p.sx - p.gx, p.sy - p.gy) < 0.4 * mn)
                     continue;
                 if (layout == 2)
                 {
-                    double ps = wallVertical ? sx : sy, pg = wallVertical ? gx : gy;
+                    double ps = wallVertical ? p.sx : p.sy, pg = wallVertical ? p.gx : p.gy;
                     if ((ps - wallPos) * (pg - wallPos) > 0)
                         continue;
                 }
-                placed = true;
+                return true;
             }
-            if (!placed)
-            {
-                w.obs.clear();
-                layout = 0;
-            }
+            return false;
         }
-        if (!placed || !drawFree(s2x, s2y, 0.25))
-        {
-            sink.inconclusive("world-generation");
-            sink.noteCase(hash, false);
-            return;
-        }
-        for (const auto &o : w.obs)
-        {
-            H(o.type);
-            H(o.a);
-            H(o.b);
-            H(o.c);
-            H(o.d);
-        }
-        H(sx), H(sy), H(gx), H(gy);
+        // positions of a further query in the same world (C03 histories)
+        bool drawPositions(Rng &rng, Pos &p) const { return place(rng, p) && drawFree(rng, p.s2x, p.s2y, 0.25); }
 
-        // ---- system -----------------------------------------------------------------------------------------
-        Sys sys;
-        sys.kind = sk;
-        sys.h = H(rng.logUni(0.02, 0.25));
-        const unsigned minD = (unsigned)rng.range(1, 4), maxD = minD + (unsigned)rng.range(0, 20);
-        H(minD), H(maxD);
-        ob::RealVectorBounds xyb(2);
-        xyb.setLow(0, w.x0);
-        xyb.setHigh(0, w.x0 + w.W);
-        xyb.setLow(1, w.y0);
-        xyb.setHigh(1, w.y0 + w.H);
-        if (sk == S_POINT)
+        // ---- world ------------------------------------------------------------------------------------------
+        bool genWorld(Rng &rng)
         {
-            auto sp = std::make_shared<ob::RealVectorStateSpace>(2);
-            sp->setBounds(xyb);
-            sys.space = sp;
-            sys.clo[0] = -rng.uni(0.2, 2), sys.chi[0] = rng.uni(0.2, 2);
-            sys.clo[1] = -rng.uni(0.2, 2), sys.chi[1] = rng.uni(0.2, 2);
-        }
-        else if (sk == S_CAR)
-        {
-            auto sp = std::make_shared<ob::SE2StateSpace>();
-            sp->setBounds(xyb);
-            sys.space = sp;
-            sys.so2 = sp->getSubspace(1)->as<ob::SO2StateSpace>();
-            sys.L = H(rng.uni(0.3, 1.0));
-            sys.clo[0] = -rng.uni(0, 0.6), sys.chi[0] = rng.uni(0.5, 2);
-            if (rng.coin(0.15))
-                sys.clo[0] = sys.chi[0];  // constant forward speed: a degenerate (low == high) control bound
-            sys.clo[1] = -rng.uni(0.2, 0.9), sys.chi[1] = rng.uni(0.2, 0.9);
-        }
-        else
-        {
-            auto sp = std::make_shared<ob::RealVectorStateSpace>(4);
-            sys.vmax = H(rng.uni(0.5, 2.5));
-            sys.clampVel = rng.coin();
-            H(sys.clampVel);
-            ob::RealVectorBounds b4(4);
-            b4.setLow(0, xyb.low[0]), b4.setHigh(0, xyb.high[0]);
-            b4.setLow(1, xyb.low[1]), b4.setHigh(1, xyb.high[1]);
-            b4.setLow(2, -sys.vmax), b4.setHigh(2, sys.vmax);
-            b4.setLow(3, -sys.vmax), b4.setHigh(3, sys.vmax);
-            sp->setBounds(b4);
-            sys.space = sp;
-            sys.clo[0] = -rng.uni(0.3, 2), sys.chi[0] = rng.uni(0.3, 2);
-            sys.clo[1] = -rng.uni(0.3, 2), sys.chi[1] = rng.uni(0.3, 2);
-        }
-        // A small class of "creeping" systems: control magnitudes so small that successive propagation steps are
-        // closer together than std::numeric_limits<float>::epsilon() in the state-space metric.  The goal is out of
-        // reach, but planners still report approximate solutions, and those must replay like any other.
-        const bool creeping = rng.u01() < atof(a.get("slowfrac", "0.03").c_str());
-        const double cscale = creeping ? rng.logUni(2e-7, 5e-6) : 1.0;
-        H(cscale);
-        if (creeping)
-        {
-            for (int d = 0; d < 2; ++d)
-                sys.clo[d] *= cscale, sys.chi[d] *= cscale;
-            sink.count("c02_cases_creeping_system");
-        }
-        for (int d = 0; d < 2; ++d)
-            H(sys.clo[d]), H(sys.chi[d]);
-        sys.cspace = std::make_shared<oc::RealVectorControlSpace>(sys.space, 2);
-        {
-            ob::RealVectorBounds cb(2);
-            for (int d = 0; d < 2; ++d)
-                cb.setLow(d, sys.clo[d]), cb.setHigh(d, sys.chi[d]);
-            sys.cspace->setBounds(cb);
-        }
-        auto si = std::make_shared<oc::SpaceInformation>(sys.space, sys.cspace);
-        si->setStatePropagator(std::make_shared<Propagator>(si.get(), &sys));
-        Validity valid{si.get(), &sys, &w};
-        si->setStateValidityChecker([valid](const ob::State *s) { return valid(s); });
-        si->setPropagationStepSize(sys.h);
-        si->setMinMaxControlDuration(minD, maxD);
-        const unsigned kdir = rng.coin(0.5) ? 1u : (unsigned)rng.range(2, 5);
-        H(kdir);
-        if (kdir > 1)
-            si->setDirectedControlSamplerAllocator([kdir](const oc::SpaceInformation *s) {
-                return std::make_shared<oc::SimpleDirectedControlSampler>(s, kdir);
-            });
-        si->setup();
-        const double h = si->getPropagationStepSize();
-        const double scale = si->getMaximumExtent() + std::max({std::fabs(w.x0), std::fabs(w.x0 + w.W),
-                                                                 std::fabs(w.y0), std::fabs(w.y0 + w.H)});
-        const double tol = 1e-9 * (1 + scale);
-
-        // ---- start / goal -----------------------------------------------------------------------------------
-        auto mkState = [&](ob::ScopedState<> &s, double x, double y) {
-            double v[4] = {x, y, 0, 0};
-            if (sk == S_CAR)
-                v[2] = rng.uni(-M_PI, M_PI);
-            else if (sk == S_DINT && rng.coin())
+            w.W = H(rng.uni(6, 14));
+            w.H = H(rng.uni(6, 14));
             {
-                v[2] = rng.uni(-0.3, 0.3) * sys.vmax;
-                v[3] = rng.uni(-0.3, 0.3) * sys.vmax;
+                int k = rng.range(0, 2);
+                w.x0 = H(k == 0 ? 0. : k == 1 ? -w.W / 2 : rng.uni(-20, 20));
+                k = rng.range(0, 2);
+                w.y0 = H(k == 0 ? 0. : k == 1 ? -w.H / 2 : rng.uni(-20, 20));
             }
-            sys.setComps(s.get(), v);
-        };
-        auto pdef = std::make_shared<ob::ProblemDefinition>(si);
-        std::vector<ob::ScopedState<>> starts;
-        {
-            double r = rng.u01();
-            if (r < 0.1)
-            {
-                // an invalid start state listed first: the planner has to skip it
-                ob::ScopedState<> bad(sys.space);
-                if (!w.obs.empty() && rng.coin())
+            mn = std::min(w.W, w.H);
+            double lay = rng.u01();
+            layout = lay < 0.1 ? 0 : lay < 0.65 ? 1 : 2;
+            wallVertical = true;
+            wallPos = 0;
+            auto scatter = [&](int k) {
+                for (int i = 0; i < k; ++i)
                 {
-                    // just inside an obstacle's boundary (a single propagation step could leave it)
-                    const Obst &o = w.obs[rng.ui(w.obs.size())];
-                    const double delta = rng.uni(0.001, 0.05);
-                    double bx, by;
-                    if (o.type == 0)
+                    Obst o;
+                    if (rng.coin())
                     {
-                        const double ang = rng.uni(-M_PI, M_PI), rr = std::max(0., o.c - delta);
-                        bx = o.a + rr * std::cos(ang);
-                        by = o.b + rr * std::sin(ang);
+                        o.type = 0;
+                        o.a = w.x0 + rng.uni(0, w.W);
+                        o.b = w.y0 + rng.uni(0, w.H);
+                        o.c = rng.uni(0.3, 0.3 + 0.12 * mn);
+                        o.d = 0;
                     }
                     else
                     {
-                        bx = rng.uni(o.a, o.c);
-                        by = rng.uni(o.b, o.d);
-                        switch (rng.range(0, 3))
-                        {
-                            case 0: bx = o.a + delta; break;
-                            case 1: bx = o.c - delta; break;
-                            case 2: by = o.b + delta; break;
-                            default: by = o.d - delta; break;
-                        }
+                        o.type = 1;
+                        double bw = rng.uni(0.4, 0.25 * w.W), bh = rng.uni(0.4, 0.25 * w.H);
+                        o.a = w.x0 + rng.uni(0, w.W - bw);
+                        o.b = w.y0 + rng.uni(0, w.H - bh);
+                        o.c = o.a + bw;
+                        o.d = o.b + bh;
                     }
-                    bx = std::max(w.x0, std::min(w.x0 + w.W, bx));
-                    by = std::max(w.y0, std::min(w.y0 + w.H, by));
-                    mkState(bad, bx, by);
+                    w.obs.push_back(o);
+                }
+            };
+            if (layout == 1)
+                scatter(rng.range(1, 7));
+            else if (layout == 2)
+            {
+                wallVertical = rng.coin();
+                double ext = wallVertical ? w.W : w.H, oth = wallVertical ? w.H : w.W;
+                double e0 = wallVertical ? w.x0 : w.y0, o0 = wallVertical ? w.y0 : w.x0;
+                wallPos = e0 + ext * rng.uni(0.35, 0.65);
+                double th = rng.uni(0.2, 1.0), gw = rng.uni(1.0, 3.0), gc = o0 + rng.uni(gw / 2, oth - gw / 2);
+                Obst lo{1, 0, 0, 0, 0}, hi{1, 0, 0, 0, 0};
+                if (wallVertical)
+                {
+                    lo = Obst{1, wallPos - th / 2, o0 - 1, wallPos + th / 2, gc - gw / 2};
+                    hi = Obst{1, wallPos - th / 2, gc + gw / 2, wallPos + th / 2, o0 + oth + 1};
                 }
                 else
-                    mkState(bad, w.x0 - 1.0, w.y0 + 0.5 * w.H);
-                if (!valid(bad.get()))
                 {
-                    starts.push_back(bad);
-                    sink.count("c02_cases_with_invalid_extra_start");
+                    lo = Obst{1, o0 - 1, wallPos - th / 2, gc - gw / 2, wallPos + th / 2};
+                    hi = Obst{1, gc + gw / 2, wallPos - th / 2, o0 + oth + 1, wallPos + th / 2};
+                }
+                w.obs.push_back(lo);
+                w.obs.push_back(hi);
+                scatter(rng.range(0, 2));
+            }
+            // start / goal positions
+            bool placed = false;
+            for (int attempt = 0; attempt < 2 && !placed; ++attempt)
+            {
+                placed = place(rng, pos);
+                if (!placed)
+                {
+                    w.obs.clear();
+                    layout = 0;
                 }
             }
-            ob::ScopedState<> s1(sys.space);
-            mkState(s1, sx, sy);
-            if (r < 0.1 && !starts.empty() && rng.coin(0.3))
-                sink.count("c02_cases_with_only_invalid_starts");  // expected outcome: INVALID_START and no path
+            if (!placed || !drawFree(rng, pos.s2x, pos.s2y, 0.25))
+                return false;
+            for (const auto &o : w.obs)
+            {
+                H(o.type);
+                H(o.a);
+                H(o.b);
+                H(o.c);
+                H(o.d);
+            }
+            H(pos.sx), H(pos.sy), H(pos.gx), H(pos.gy);
+            return true;
+        }
+
+        // ---- system -----------------------------------------------------------------------------------------
+        void genSystem(Rng &rng)
+        {
+            sys.kind = sk;
+            sys.h = H(rng.logUni(0.02, 0.25));
+            minD = (unsigned)rng.range(1, 4), maxD = minD + (unsigned)rng.range(0, 20);
+            H(minD), H(maxD);
+            xyb.setLow(0, w.x0);
+            xyb.setHigh(0, w.x0 + w.W);
+            xyb.setLow(1, w.y0);
+            xyb.setHigh(1, w.y0 + w.H);
+            if (sk == S_POINT)
+            {
+                auto sp = mkSpace<ob::RealVectorStateSpace>(2);
+                sp->setBounds(xyb);
+                sys.space = sp;
+                sys.clo[0] = -rng.uni(0.2, 2), sys.chi[0] = rng.uni(0.2, 2);
+                sys.clo[1] = -rng.uni(0.2, 2), sys.chi[1] = rng.uni(0.2, 2);
+            }
+            else if (sk == S_CAR)
+            {
+                auto sp = mkSpace<ob::SE2StateSpace>();
+                sp->setBounds(xyb);
+                sys.space = sp;
+                sys.so2 = sp->getSubspace(1)->as<ob::SO2StateSpace>();
+                sys.L = H(rng.uni(0.3, 1.0));
+                sys.clo[0] = -rng.uni(0, 0.6), sys.chi[0] = rng.uni(0.5, 2);
+                if (rng.coin(0.15))
+                    sys.clo[0] = sys.chi[0];  // constant forward speed: a degenerate (low == high) control bound
+                sys.clo[1] = -rng.uni(0.2, 0.9), sys.chi[1] = rng.uni(0.2, 0.9);
+            }
             else
-                starts.push_back(s1);
-            if (r > 0.8 && std::hypot(s2x - gx, s2y - gy) > 0.25 * mn)
             {
-                ob::ScopedState<> s2(sys.space);
-                mkState(s2, s2x, s2y);
-                starts.push_back(s2);
-                sink.count("c02_cases_with_two_valid_starts");
+                auto sp = mkSpace<ob::RealVectorStateSpace>(4);
+                sys.vmax = H(rng.uni(0.5, 2.5));
+                sys.clampVel = rng.coin();
+                H(sys.clampVel);
+                ob::RealVectorBounds b4(4);
+                b4.setLow(0, xyb.low[0]), b4.setHigh(0, xyb.high[0]);
+                b4.setLow(1, xyb.low[1]), b4.setHigh(1, xyb.high[1]);
+                b4.setLow(2, -sys.vmax), b4.setHigh(2, sys.vmax);
+                b4.setLow(3, -sys.vmax), b4.setHigh(3, sys.vmax);
+                sp->setBounds(b4);
+                sys.space = sp;
+                sys.clo[0] = -rng.uni(0.3, 2), sys.chi[0] = rng.uni(0.3, 2);
+                sys.clo[1] = -rng.uni(0.3, 2), sys.chi[1] = rng.uni(0.3, 2);
             }
-        }
-        for (auto &s : starts)
-            pdef->addStartState(s);
-        int goalKind;
-        {
-            double r = rng.u01();
-            goalKind = r < 0.5 ? 0 : r < 0.8 ? 1 : 2;
-            // a third of the sampleable disc goals of the car / double integrator carry a condition on the other coordinates
-            if (goalKind == 0 && sk != S_POINT && rng.coin(0.35)) goalKind = 3;
-            // Syclop needs a sampleable goal to locate the goal region; without one it has to return INVALID_GOAL
-            if (goalKind == 2 && (pl == P_SYRRT || pl == P_SYEST) && !rng.coin(0.25))
-                goalKind = 0;
-        }
-        H(goalKind);
-        double thr;
-        if (goalKind == 1)
-        {
-            thr = H(rng.uni(0.5, 1.5));
-            ob::ScopedState<> g(sys.space);
-            mkState(g, gx, gy);
-            if (sk == S_DINT)
+            // A small class of "creeping" systems: control magnitudes so small that successive propagation steps are
+            // closer together than std::numeric_limits<float>::epsilon() in the state-space metric.  The goal is out of
+            // reach, but planners still report approximate solutions, and those must replay like any other.
+            creeping = rng.u01() < slowfrac;
+            cscale = creeping ? rng.logUni(2e-7, 5e-6) : 1.0;
+            H(cscale);
+            if (creeping)
             {
-                double v[4];
-                sys.comps(g.get(), v);
-                v[2] = v[3] = 0;
-                sys.setComps(g.get(), v);
+                for (int d = 0; d < 2; ++d)
+                    sys.clo[d] *= cscale, sys.chi[d] *= cscale;
+                note("c02_cases_creeping_system");
             }
-            auto gs = std::make_shared<ob::GoalState>(si);
-            gs->setState(g);
-            gs->setThreshold(thr);
-            pdef->setGoal(gs);
-        }
-        else
-        {
-            thr = H(rng.uni(0.3, 1.0));
-            if (goalKind == 3)
+            for (int d = 0; d < 2; ++d)
+                H(sys.clo[d]), H(sys.chi[d]);
+            if (ctTr)
             {
-                pdef->setGoal(std::make_shared<XYCondGoal>(si, &sys, gx, gy, thr, rng.uni(-M_PI, M_PI), sk == S_DINT ? rng.uni(0.25, 0.7) * sys.vmax : 0.0));
-                sink.count("c02_cases_goal_with_condition");
+                auto cs = std::make_shared<CountingControlSpace>(sys.space, 2);
+                cs->tr = ctTr;
+                sys.cspace = cs;
             }
-            else if (goalKind == 0)
-                pdef->setGoal(std::make_shared<XYGoalSampleable>(si, &sys, gx, gy, thr));
             else
-                pdef->setGoal(std::make_shared<XYGoalRegion>(si, &sys, gx, gy, thr));
+                sys.cspace = std::make_shared<oc::RealVectorControlSpace>(sys.space, 2);
+            {
+                ob::RealVectorBounds cb(2);
+                for (int d = 0; d < 2; ++d)
+                    cb.setLow(d, sys.clo[d]), cb.setHigh(d, sys.chi[d]);
+                sys.cspace->setBounds(cb);
+            }
+            si = std::make_shared<oc::SpaceInformation>(sys.space, sys.cspace);
+            si->setStatePropagator(std::make_shared<Propagator>(si.get(), &sys));
+            valid = Validity{si.get(), &sys, &w};
+            Validity v = valid;
+            si->setStateValidityChecker([v](const ob::State *s) { return v(s); });
+            si->setPropagationStepSize(sys.h);
+            si->setMinMaxControlDuration(minD, maxD);
+            kdir = rng.coin(0.5) ? 1u : (unsigned)rng.range(2, 5);
+            H(kdir);
+            if (kdir > 1)
+            {
+                const unsigned kd = kdir;
+                si->setDirectedControlSamplerAllocator([kd](const oc::SpaceInformation *s) {
+                    return std::make_shared<oc::SimpleDirectedControlSampler>(s, kd);
+                });
+            }
+            si->setup();
+            h = si->getPropagationStepSize();
+            scale = si->getMaximumExtent() + std::max({std::fabs(w.x0), std::fabs(w.x0 + w.W),
+                                                       std::fabs(w.y0), std::fabs(w.y0 + w.H)});
+            tol = 1e-9 * (1 + scale);
+        }
+
+        // ---- start / goal -----------------------------------------------------------------------------------
+        // fills q (starts, goal, problem definition) for the positions q.p; `into` non-null: the start states and the goal
+        // of that existing problem definition are replaced instead of creating a new one
+        void genQuery(Rng &rng, Query &q, const ob::ProblemDefinitionPtr &into = nullptr)
+        {
+            const double sx = q.p.sx, sy = q.p.sy, gx = q.p.gx, gy = q.p.gy, s2x = q.p.s2x, s2y = q.p.s2y;
+            auto mkState = [&](ob::ScopedState<> &s, double x, double y) {
+                double v[4] = {x, y, 0, 0};
+                if (sk == S_CAR)
+                    v[2] = rng.uni(-M_PI, M_PI);
+                else if (sk == S_DINT && rng.coin())
+                {
+                    v[2] = rng.uni(-0.3, 0.3) * sys.vmax;
+                    v[3] = rng.uni(-0.3, 0.3) * sys.vmax;
+                }
+                sys.setComps(s.get(), v);
+            };
+            ob::ProblemDefinitionPtr pdef = into;
+            if (pdef)
+                pdef->clearStartStates();
+            else
+                pdef = std::make_shared<ob::ProblemDefinition>(si);
+            std::vector<ob::ScopedState<>> &starts = q.starts;
+            starts.clear();
+            q.onlyInvalidStarts = false;
+            {
+                double r = rng.u01();
+                if (r < 0.1)
+                {
+                    // an invalid start state listed first: the planner has to skip it
+                    ob::ScopedState<> bad(sys.space);
+                    if (!w.obs.empty() && rng.coin())
+                    {
+                        // just inside an obstacle's boundary (a single propagation step could leave it)
+                        const Obst &o = w.obs[rng.ui(w.obs.size())];
+                        const double delta = rng.uni(0.001, 0.05);
+                        double bx, by;
+                        if (o.type == 0)
+                        {
+                            const double ang = rng.uni(-M_PI, M_PI), rr = std::max(0., o.c - delta);
+                            bx = o.a + rr * std::cos(ang);
+                            by = o.b + rr * std::sin(ang);
+                        }
+                        else
+                        {
+                            bx = rng.uni(o.a, o.c);
+                            by = rng.uni(o.b, o.d);
+                            switch (rng.range(0, 3))
+                            {
+                                case 0: bx = o.a + delta; break;
+                                case 1: bx = o.c - delta; break;
+                                case 2: by = o.b + delta; break;
+                                default: by = o.d - delta; break;
+                            }
+                        }
+                        bx = std::max(w.x0, std::min(w.x0 + w.W, bx));
+                        by = std::max(w.y0, std::min(w.y0 + w.H, by));
+                        mkState(bad, bx, by);
+                    }
+                    else
+                        mkState(bad, w.x0 - 1.0, w.y0 + 0.5 * w.H);
+                    if (!valid(bad.get()))
+                    {
+                        starts.push_back(bad);
+                        note("c02_cases_with_invalid_extra_start");
+                    }
+                }
+                ob::ScopedState<> s1(sys.space);
+                mkState(s1, sx, sy);
+                if (r < 0.1 && !starts.empty() && rng.coin(0.3))
+                {
+                    note("c02_cases_with_only_invalid_starts");  // expected outcome: INVALID_START and no path
+                    q.onlyInvalidStarts = true;
+                }
+                else
+                    starts.push_back(s1);
+                if (r > 0.8 && std::hypot(s2x - gx, s2y - gy) > 0.25 * mn)
+                {
+                    ob::ScopedState<> s2(sys.space);
+                    mkState(s2, s2x, s2y);
+                    starts.push_back(s2);
+                    note("c02_cases_with_two_valid_starts");
+                }
+            }
+            for (auto &s : starts)
+                pdef->addStartState(s);
+            int goalKind;
+            {
+                double r = rng.u01();
+                goalKind = r < 0.5 ? 0 : r < 0.8 ? 1 : 2;
+                // a third of the sampleable disc goals of the car / double integrator carry a condition on the other coordinates
+                if (goalKind == 0 && sk != S_POINT && rng.coin(0.35)) goalKind = 3;
+                // Syclop needs a sampleable goal to locate the goal region; without one it has to return INVALID_GOAL
+                if (goalKind == 2 && (pl == P_SYRRT || pl == P_SYEST) && !rng.coin(0.25))
+                    goalKind = 0;
+            }
+            H(goalKind);
+            double thr;
+            if (goalKind == 1)
+            {
+                thr = H(rng.uni(0.5, 1.5));
+                ob::ScopedState<> g(sys.space);
+                mkState(g, gx, gy);
+                if (sk == S_DINT)
+                {
+                    double v[4];
+                    sys.comps(g.get(), v);
+                    v[2] = v[3] = 0;
+                    sys.setComps(g.get(), v);
+                }
+                auto gs = std::make_shared<ob::GoalState>(si);
+                gs->setState(g);
+                gs->setThreshold(thr);
+                pdef->setGoal(gs);
+            }
+            else
+            {
+                thr = H(rng.uni(0.3, 1.0));
+                if (goalKind == 3)
+                {
+                    pdef->setGoal(std::make_shared<XYCondGoal>(si, &sys, gx, gy, thr, rng.uni(-M_PI, M_PI), sk == S_DINT ? rng.uni(0.25, 0.7) * sys.vmax : 0.0));
+                    note("c02_cases_goal_with_condition");
+                }
+                else if (goalKind == 0)
+                    pdef->setGoal(std::make_shared<XYGoalSampleable>(si, &sys, gx, gy, thr));
+                else
+                    pdef->setGoal(std::make_shared<XYGoalRegion>(si, &sys, gx, gy, thr));
+            }
+            q.pdef = pdef;
+            q.goalKind = goalKind;
+            q.thr = thr;
+        }
+
+        // the objective a drawn SST variant needs on every problem definition it is given
+        void applyObjective(const ob::ProblemDefinitionPtr &pdef) const
+        {
+            if (pl == P_SST && sstStopAtFirst)
+            {
+                // any solution satisfies the objective -> SST returns at its first exact solution
+                auto opt = std::make_shared<ob::PathLengthOptimizationObjective>(si);
+                opt->setCostThreshold(opt->infiniteCost());
+                pdef->setOptimizationObjective(opt);
+            }
         }
 
         // ---- planner ----------------------------------------------------------------------------------------
-        const double goalBias = H(rng.coin(0.15) ? 0.0 : rng.uni(0.02, 0.3));
-        const int cells = rng.range(8, 30);
-        const bool explicitProj = sk == S_DINT ? !rng.coin(0.2) : rng.coin(0.6);
-        H(cells), H(explicitProj);
-        auto proj = [&]() { return std::make_shared<XYProjection>(sys.space, &sys, w, cells); };
-        ob::PlannerPtr planner;
-        bool sstStopAtFirst = false, regionalNN = false;
-        try
+        // draws the planner's parameters, constructs it, hands it the problem definition and sets it up (may throw)
+        ob::PlannerPtr makePlanner(Rng &rng, const ob::ProblemDefinitionPtr &pdef)
         {
+            const double goalBias = H(rng.coin(0.15) ? 0.0 : rng.uni(0.02, 0.3));
+            const int cells = rng.range(8, 30);
+            const bool explicitProj = sk == S_DINT ? !rng.coin(0.2) : rng.coin(0.6);
+            H(cells), H(explicitProj);
+            auto proj = [&]() { return std::make_shared<XYProjection>(sys.space, &sys, w, cells); };
+            ob::PlannerPtr planner;
+            sstStopAtFirst = false, regionalNN = false;
             switch (pl)
             {
                 case P_RRT:
@@ -772,13 +935,7 @@ namespace
                     p->setPruningRadius(H(sel * rng.uni(0.2, 0.8)));
                     sstStopAtFirst = rng.coin();
                     H(sstStopAtFirst);
-                    if (sstStopAtFirst)
-                    {
-                        // any solution satisfies the objective -> SST returns at its first exact solution
-                        auto opt = std::make_shared<ob::PathLengthOptimizationObjective>(si);
-                        opt->setCostThreshold(opt->infiniteCost());
-                        pdef->setOptimizationObjective(opt);
-                    }
+                    applyObjective(pdef);
                     planner = p;
                     break;
                 }
@@ -847,6 +1004,391 @@ namespace
             }
             planner->setProblemDefinition(pdef);
             planner->setup();
+            return planner;
+        }
+
+        // ---- evaluation budget of one solve() call -------------------------------------------------------------
+        unsigned long drawBudget(Rng &rng) const
+        {
+            unsigned long budget = (unsigned long)(thorough ? rng.logUni(2000, 60000) : rng.logUni(1500, 25000));
+            if (pl == P_SST && !sstStopAtFirst)
+                budget = budget / 2 + 500;  // always runs the whole budget
+            if (creeping)
+                budget = 300 + budget % 1700;  // nothing can be reached; a short run gives the approximate paths wanted
+            if (regionalNN)
+                budget = std::min(budget, 6000ul);  // linear scans over the region's motions: quadratic in the tree size
+            return budget;
+        }
+        // second, equally deterministic bound on the tree size: calls of the harness's propagator by the library
+        long callCap() const { return thorough ? 600000 : 300000; }
+    };
+
+    // ---- replay oracle ---------------------------------------------------------------------------------------------------
+    // where the verdicts and observations of the oracle go: C02 reports "C02:<clause>:<Planner>", C03 re-uses every clause as
+    // "C03:solution-<clause>:control::<Planner>"
+    struct OracleOut
+    {
+        Sink &sink;
+        std::string keyPre;      // "C02:" / "C03:solution-"
+        std::string subj;        // planner part of the key
+        std::string interpSubj;  // subject of the interpolated-form clause
+        std::string cnt;         // counter prefix ("c02_" / "c03c_")
+        std::function<J()> base;
+        // optional: returns a complete key that replaces the clause's own (symptoms of one root cause share one key), or ""
+        std::function<std::string(const std::string &)> fold;
+        void viol(const std::string &clause, const std::string &cls, const J &d) const
+        {
+            if (fold)
+            {
+                const std::string k = fold(clause);
+                if (!k.empty())
+                {
+                    sink.viol(k, d);
+                    return;
+                }
+            }
+            sink.viol(keyPre + clause + ":" + subj + cls, d);
+        }
+        void count(const std::string &name, long long n = 1) const { sink.count(cnt + name, n); }
+        void maxstat(const std::string &name, double v) const { sink.maxstat(cnt + name, v); }
+    };
+
+    struct PathReport
+    {
+        bool examined = false;  // the path had states and consistent counts, so the clauses below were decided
+        size_t controls = 0;
+        long steps = 0;
+    };
+
+    // One registered solution against the query it was registered for: non-empty, flag vs status of the registering call,
+    // first state a valid start, every control (whole step count, bounds, step-by-step replay from the recorded state, every
+    // step valid, recorded next state reproduced), last state vs goal / reported difference, interpolated form.
+    PathReport checkPath(Scen &sc, const Query &q, const ob::PlannerSolution &sol, const ob::PlannerStatus &st, const OracleOut &o)
+    {
+        PathReport rep;
+        const Sys &sys = sc.sys;
+        const auto &si = sc.si;
+        const Validity &valid = sc.valid;
+        const int sk = sc.sk;
+        const std::string &P = sc.P, &S = sc.S;
+        const double h = sc.h, tol = sc.tol;
+        const unsigned minD = sc.minD, maxD = sc.maxD;
+        const ob::ProblemDefinitionPtr &pdef = q.pdef;
+        const double gx = q.p.gx, gy = q.p.gy;
+        const auto &base = o.base;
+
+        const bool approx = sol.approximate_;
+        auto *path = dynamic_cast<oc::PathControl *>(sol.path_.get());
+        if (!path || path->getStateCount() == 0)
+        {
+            o.viol("empty-path", "", base().str("what", path ? "path without states" : "not a PathControl"));
+            return rep;
+        }
+        const std::vector<ob::State *> &states = path->getStates();
+        const std::vector<oc::Control *> &controls = path->getControls();
+        const std::vector<double> &durs = path->getControlDurations();
+        if (states.size() != controls.size() + 1 || durs.size() != controls.size())
+        {
+            o.viol("empty-path", "", base()
+                                         .str("what", "states/controls/durations counts inconsistent")
+                                         .u("states", states.size())
+                                         .u("controls", controls.size())
+                                         .u("durations", durs.size()));
+            return rep;
+        }
+        rep.examined = true;
+        rep.controls = controls.size();
+        o.count(std::string(approx ? "solutions_approx:" : "solutions_exact:") + P);
+
+        // flag <-> status of the call that registered the path
+        {
+            const bool statusApprox = st == ob::PlannerStatus::APPROXIMATE_SOLUTION;
+            if (approx != statusApprox)
+                o.viol("approx-flag-status", "",
+                       base().b("flagged_approximate", approx).num("difference", sol.difference_)
+                           .num("distanceGoal_last", [&] {
+                               auto *gr = dynamic_cast<ob::GoalRegion *>(pdef->getGoal().get());
+                               return gr ? gr->distanceGoal(states.back()) : -1.;
+                           }())
+                           .b("last_satisfies_goal", pdef->getGoal()->isSatisfied(states.back())));
+        }
+
+        // first state = a valid start state
+        {
+            bool isStart = false;
+            for (auto &s : q.starts)
+                if (sys.space->equalStates(s.get(), states[0]))
+                    isStart = true;
+            if (!isStart || !valid(states[0]))
+                o.viol("start-state", "", base().arr("first", compVec(sys, states[0])).b("is_start", isStart)
+                                              .b("valid", valid(states[0])));
+            o.count("start_checks");
+        }
+
+        ob::State *cur = si->allocState(), *nxt = si->allocState();
+        // every control: duration, bounds, replay
+        long stepsHere = 0;
+        bool durViol[2] = {false, false}, misViol[2] = {false, false}, oobViol = false, invViol = false;
+        for (size_t i = 0; i < controls.size(); ++i)
+        {
+            // input class of this control (part of the key): does one propagation step from the recorded state move
+            // the state by less than float epsilon in the state-space metric?
+            sys.step(states[i], controls[i], h, nxt);
+            const bool subEps = si->distance(states[i], nxt) < std::numeric_limits<float>::epsilon();
+            const std::string cls = subEps ? ":steps-below-float-eps" : "";
+            if (subEps)
+                o.count("controls_with_steps_below_float_eps");
+            const double qd = durs[i] / h;
+            const double rq = std::floor(qd + 0.5);
+            if (!(std::fabs(qd - rq) <= 1e-9) || !(rq >= 1) || !(rq < 1e9))
+            {
+                if (!durViol[subEps])
+                    o.viol("duration-not-multiple", cls,
+                           base().u("control_index", i).num("duration", durs[i]).num("ratio", qd));
+                durViol[subEps] = true;
+                continue;  // nothing sensible to replay for this control
+            }
+            const long n = (long)rq;
+            if ((unsigned long)n < minD)
+                o.count("controls_below_min_duration");
+            if ((unsigned long)n > maxD)
+                o.count("controls_above_max_duration");
+            const double *u = controls[i]->as<oc::RealVectorControlSpace::ControlType>()->values;
+            for (int d = 0; d < 2; ++d)
+            {
+                const double mlo = std::numeric_limits<double>::epsilon() + 4 * ulp(sys.clo[d]);
+                const double mhi = std::numeric_limits<double>::epsilon() + 4 * ulp(sys.chi[d]);
+                if (!(u[d] >= sys.clo[d] - mlo && u[d] <= sys.chi[d] + mhi))
+                {
+                    if (!oobViol)
+                        o.viol("control-oob", "", base().u("control_index", i).i("dim", d).num("value", u[d])
+                                                      .num("low", sys.clo[d]).num("high", sys.chi[d]));
+                    oobViol = true;
+                }
+            }
+            // replay from the RECORDED state i, so one mismatch does not cascade
+            si->copyState(cur, states[i]);
+            long firstInvalid = -1;
+            for (long j = 0; j < n; ++j)
+            {
+                sys.step(cur, controls[i], h, nxt);
+                if (firstInvalid < 0 && !valid(nxt))
+                    firstInvalid = j;
+                std::swap(cur, nxt);
+            }
+            stepsHere += n;
+            if (firstInvalid >= 0)
+            {
+                if (!invViol)
+                    o.viol("replay-invalid-step", "", base().u("control_index", i).i("steps", n)
+                                                          .i("first_invalid_step", firstInvalid + 1)
+                                                          .arr("from", compVec(sys, states[i]))
+                                                          .arr("control", {u[0], u[1]}));
+                invViol = true;
+            }
+            double va[4], vb[4];
+            sys.comps(cur, va);
+            sys.comps(states[i + 1], vb);
+            double worst = 0;
+            bool bitEq = true;
+            for (unsigned d = 0; d < sys.ncomp(); ++d)
+            {
+                if (memcmp(&va[d], &vb[d], sizeof(double)) != 0)
+                    bitEq = false;
+                double e = std::fabs(va[d] - vb[d]);
+                if (sk == S_CAR && d == 2 && e > M_PI)
+                    e = 2 * M_PI - e;
+                if (!(e <= worst))
+                    worst = e;
+            }
+            o.maxstat("worst_replay_error", worst);
+            if (!(worst <= tol))
+            {
+                if (!misViol[subEps])
+                {
+                    // diagnosis aid: which step count would have reproduced the recorded state best
+                    long bestN = -1;
+                    double bestE = std::numeric_limits<double>::infinity();
+                    si->copyState(cur, states[i]);
+                    for (long j = 1; j <= std::max<long>(n, (long)maxD) + 5; ++j)
+                    {
+                        sys.step(cur, controls[i], h, nxt);
+                        std::swap(cur, nxt);
+                        double w2[4], e = 0;
+                        sys.comps(cur, w2);
+                        for (unsigned d = 0; d < sys.ncomp(); ++d)
+                        {
+                            double ee = std::fabs(w2[d] - vb[d]);
+                            if (sk == S_CAR && d == 2 && ee > M_PI)
+                                ee = 2 * M_PI - ee;
+                            e = std::max(e, ee);
+                        }
+                        if (e < bestE)
+                            bestE = e, bestN = j;
+                    }
+                    // and one long step of n*h
+                    si->copyState(cur, states[i]);
+                    sys.step(cur, controls[i], durs[i], nxt);
+                    double w3[4], eLong = 0;
+                    sys.comps(nxt, w3);
+                    for (unsigned d = 0; d < sys.ncomp(); ++d)
+                        eLong = std::max(eLong, std::fabs(w3[d] - vb[d]));
+                    o.viol("replay-mismatch", cls,
+                           base().u("control_index", i).u("controls", controls.size()).i("steps", n)
+                               .num("error", worst).num("tolerance", tol)
+                               .arr("from", compVec(sys, states[i])).arr("control", {u[0], u[1]})
+                               .arr("recorded_next", compVec(sys, states[i + 1]))
+                               .arr("replayed_next", std::vector<double>(va, va + sys.ncomp()))
+                               .i("best_matching_step_count", bestN).num("error_at_best", bestE)
+                               .num("error_of_single_long_step", eLong));
+                }
+                misViol[subEps] = true;
+            }
+            else
+            {
+                o.count(bitEq ? "replay_bitwise_equal" : "replay_tolerance_equal_only");
+                if (!bitEq)
+                    o.count("replay_tolerance_equal_only:" + P + cls);
+            }
+            o.count("controls_replayed");
+            if (n >= 2)
+            {
+                o.count("multistep_controls");
+                if (sk == S_DINT)
+                {
+                    // sensitivity of the oracle: would one long Euler step have been told apart?
+                    si->copyState(cur, states[i]);
+                    sys.step(cur, controls[i], durs[i], nxt);
+                    double w3[4], eLong = 0;
+                    sys.comps(nxt, w3);
+                    for (unsigned d = 0; d < 4; ++d)
+                        eLong = std::max(eLong, std::fabs(w3[d] - vb[d]));
+                    if (eLong > tol)
+                        o.count("dint_controls_where_long_step_differs");
+                }
+            }
+        }
+        rep.steps = stepsHere;
+        o.count("steps_replayed", stepsHere);
+        o.maxstat("max_controls_in_path", (double)controls.size());
+
+        // last state vs goal
+        const ob::State *last = states.back();
+        auto *gr = dynamic_cast<ob::GoalRegion *>(pdef->getGoal().get());
+        if (!approx)
+        {
+            o.count("goal_checks_exact");
+            if (!pdef->getGoal()->isSatisfied(last))
+                o.viol("goal-not-satisfied", "",
+                       base().arr("last", compVec(sys, last)).num("distanceGoal", gr ? gr->distanceGoal(last) : -1.)
+                           .arr("goal_xy", {gx, gy}));
+        }
+        else
+        {
+            o.count("goal_checks_approx");
+            const double dg = gr->distanceGoal(last);
+            if (!(std::fabs(sol.difference_ - dg) <= tol))
+                o.viol("approx-difference", "", base().num("reported_difference", sol.difference_)
+                                                    .num("distanceGoal_last", dg)
+                                                    .arr("last", compVec(sys, last)));
+            if (pdef->getGoal()->isSatisfied(last))
+                o.count("approx_flag_but_goal_satisfied");
+        }
+        // the interpolated form (PathControl::interpolate(): one control per propagation step) is the library's own way of
+        // applying the recorded controls for their recorded durations: one state per step, every duration one step, same end
+        if (!durViol[0] && !durViol[1] && !misViol[0] && !misViol[1] && !controls.empty())
+        {
+            oc::PathControl ip(*path);
+            ip.interpolate();
+            o.count("interpolated_forms_checked");
+            std::string bad;
+            if ((long)ip.getStateCount() != 1 + stepsHere || (long)ip.getControlCount() != stepsHere)
+                bad = "state/control count differs from the number of recorded steps";
+            else
+            {
+                for (double d : ip.getControlDurations())
+                    if (!(std::fabs(d - h) <= 1e-9 * h)) bad = "a duration of the interpolated form is not one step";
+                double va[4], vb[4];
+                sys.comps(ip.getState(ip.getStateCount() - 1), va);
+                sys.comps(last, vb);
+                for (unsigned d = 0; d < sys.ncomp() && bad.empty(); ++d)
+                {
+                    double e = std::fabs(va[d] - vb[d]);
+                    if (sk == S_CAR && d == 2 && e > M_PI) e = 2 * M_PI - e;
+                    if (!(e <= tol)) bad = "the interpolated form ends at a different state";
+                }
+            }
+            if (!bad.empty())
+                o.sink.viol(o.keyPre + "interpolated-form:" + o.interpSubj, base().str("what", bad).i("recorded_steps", stepsHere).u("interpolated_states", ip.getStateCount())
+                                                                                .u("controls", controls.size()).num("step_size", h).str("planner", P));
+        }
+        if (controls.size() >= 2)
+        {
+            o.count("replayed:" + P);
+            o.count("replayed_sys:" + S);
+            o.count("replayed:" + P + ":" + S);
+        }
+        else
+            o.count("short_paths_lt2_controls");
+        si->freeState(cur);
+        si->freeState(nxt);
+        return rep;
+    }
+
+    // ======================================================================================================================
+    // C02
+    // ======================================================================================================================
+    void runCaseImpl(Sink &sink, const Args &a, long c, std::string &label);
+
+    void runCase(Sink &sink, const Args &a, long c)
+    {
+        // wall-clock is a statistic only (slowest case, for budgeting); it never influences a case or a verdict
+        const auto t0 = std::chrono::steady_clock::now();
+        std::string label;
+        runCaseImpl(sink, a, c, label);
+        const double dt = std::chrono::duration<double>(std::chrono::steady_clock::now() - t0).count();
+        sink.maxstat("c02_slowest_case_seconds", dt);
+        if (dt > 10)
+        {
+            sink.count("c02_cases_over_10s");
+            fprintf(stderr, "slow case %ld (%s): %.1f s\n", c, label.c_str(), dt);
+        }
+    }
+
+    void runCaseImpl(Sink &sink, const Args &a, long c, std::string &label)
+    {
+        Rng rng(caseSeed(a, c));
+        const uint32_t libSeed = (uint32_t)(caseSeed(a, c, 1) % 1000000000ULL + 1);
+        ompl::RNG::setSeed(libSeed);
+
+        const int combo = (int)((c + c / 16) % 24);
+        const int pl = combo % 8, sk = combo / 8;
+        const std::string P = PLANNERS[pl], S = SYSTEMS[sk];
+        label = P + "/" + S;
+
+        Scen sc;
+        sc.pl = pl, sc.sk = sk, sc.P = P, sc.S = S;
+        sc.thorough = a.thorough();
+        sc.slowfrac = atof(a.get("slowfrac", "0.03").c_str());
+        sc.gsink = &sink;
+        sc.hash = hmix(hmix(hashStr(P), hashStr(S)), libSeed);
+        uint64_t &hash = sc.hash;
+        auto H = [&](double v) { return sc.H(v); };
+
+        if (!sc.genWorld(rng))
+        {
+            sink.inconclusive("world-generation");
+            sink.noteCase(hash, false);
+            return;
+        }
+        sc.genSystem(rng);
+        Query q;
+        q.p = sc.pos;
+        sc.genQuery(rng, q);
+        ob::PlannerPtr planner;
+        try
+        {
+            planner = sc.makePlanner(rng, q.pdef);
         }
         catch (std::exception &e)
         {
@@ -854,22 +1396,24 @@ namespace
             sink.noteCase(hash, false);
             return;
         }
+        const World &w = sc.w;
+        Sys &sys = sc.sys;
+        const auto &pdef = q.pdef;
+        const double h = sc.h, thr = q.thr, cscale = sc.cscale;
+        const unsigned minD = sc.minD, maxD = sc.maxD;
+        const int goalKind = q.goalKind;
+        const bool creeping = sc.creeping;
+        const double sx = q.p.sx, sy = q.p.sy, gx = q.p.gx, gy = q.p.gy;
 
         // ---- run --------------------------------------------------------------------------------------------
         // Termination by evaluation count only.  In 1 of 3 cases the same planner instance (no clear()) is driven through
         // 2-3 consecutive solve() calls whatever the earlier calls returned, with drawn budgets (half of the later ones
         // tiny: 10-100 evaluations) and, per gap with probability 1/2, pdef->clearSolutionPaths() in between.  Every path
         // registered by any call is examined together with the status of the call that registered it.
-        unsigned long budget = (unsigned long)(a.thorough() ? rng.logUni(2000, 60000) : rng.logUni(1500, 25000));
-        if (pl == P_SST && !sstStopAtFirst)
-            budget = budget / 2 + 500;  // always runs the whole budget
-        if (creeping)
-            budget = 300 + budget % 1700;  // nothing can be reached; a short run gives the approximate paths wanted
-        if (regionalNN)
-            budget = std::min(budget, 6000ul);  // linear scans over the region's motions: quadratic in the tree size
+        const unsigned long budget = sc.drawBudget(rng);
         // second, equally deterministic bound on the tree size: calls of the harness's propagator by the library, summed
         // over the calls of the case; a continued call is always granted at least 20000 of them
-        const long callCap = a.thorough() ? 600000 : 300000;
+        const long callCap = sc.callCap();
         const int phases = rng.coin(1.0 / 3) ? rng.range(2, 3) : 1;
         std::vector<unsigned long> limits(phases, budget);
         std::vector<bool> clearBefore(phases, false);
@@ -1035,277 +1579,684 @@ namespace
         if (found.size() > 1)
             sink.count("c02_cases_with_several_registered_paths");
 
-        ob::State *cur = si->allocState(), *nxt = si->allocState();
+        OracleOut out{sink, "C02:", P, "PathControl", "c02_", base, nullptr};
         bool nontrivial = false;
         for (size_t k = 0; k < found.size(); ++k)
         {
             const ob::PlannerSolution &sol = found[k].sol;
-            const bool approx = sol.approximate_;
             // base() reports the call that registered this path: its status, budget and history
             st = found[k].status;
             curCall = found[k].phase, curLimit = found[k].limit, evals = found[k].evals;
             curCleared = found[k].clearedBefore, curExactBefore = found[k].exactExistedBefore;
-            auto *path = dynamic_cast<oc::PathControl *>(sol.path_.get());
-            if (!path || path->getStateCount() == 0)
-            {
-                sink.viol("C02:empty-path:" + P, base().str("what", path ? "path without states" : "not a PathControl"));
+            const PathReport rep = checkPath(sc, q, sol, st, out);
+            if (!rep.examined)
                 continue;
-            }
-            const std::vector<ob::State *> &states = path->getStates();
-            const std::vector<oc::Control *> &controls = path->getControls();
-            const std::vector<double> &durs = path->getControlDurations();
-            if (states.size() != controls.size() + 1 || durs.size() != controls.size())
-            {
-                sink.viol("C02:empty-path:" + P, base()
-                                                      .str("what", "states/controls/durations counts inconsistent")
-                                                      .u("states", states.size())
-                                                      .u("controls", controls.size())
-                                                      .u("durations", durs.size()));
-                continue;
-            }
-            sink.count(std::string(approx ? "c02_solutions_approx:" : "c02_solutions_exact:") + P);
-
-            // flag <-> status of the call that registered the path
-            {
-                const bool statusApprox = st == ob::PlannerStatus::APPROXIMATE_SOLUTION;
-                if (approx != statusApprox)
-                    sink.viol("C02:approx-flag-status:" + P,
-                              base().b("flagged_approximate", approx).num("difference", sol.difference_)
-                                  .num("distanceGoal_last", [&] {
-                                      auto *gr = dynamic_cast<ob::GoalRegion *>(pdef->getGoal().get());
-                                      return gr ? gr->distanceGoal(states.back()) : -1.;
-                                  }())
-                                  .b("last_satisfies_goal", pdef->getGoal()->isSatisfied(states.back())));
-            }
-
-            // first state = a valid start state
-            {
-                bool isStart = false;
-                for (auto &s : starts)
-                    if (sys.space->equalStates(s.get(), states[0]))
-                        isStart = true;
-                if (!isStart || !valid(states[0]))
-                    sink.viol("C02:start-state:" + P, base().arr("first", compVec(sys, states[0])).b("is_start", isStart)
-                                                          .b("valid", valid(states[0])));
-                sink.count("c02_start_checks");
-            }
-
-            // every control: duration, bounds, replay
-            long stepsHere = 0;
-            bool durViol[2] = {false, false}, misViol[2] = {false, false}, oobViol = false, invViol = false;
-            for (size_t i = 0; i < controls.size(); ++i)
-            {
-                // input class of this control (part of the key): does one propagation step from the recorded state move
-                // the state by less than float epsilon in the state-space metric?
-                sys.step(states[i], controls[i], h, nxt);
-                const bool subEps = si->distance(states[i], nxt) < std::numeric_limits<float>::epsilon();
-                const std::string cls = subEps ? ":steps-below-float-eps" : "";
-                if (subEps)
-                    sink.count("c02_controls_with_steps_below_float_eps");
-                const double q = durs[i] / h;
-                const double rq = std::floor(q + 0.5);
-                if (!(std::fabs(q - rq) <= 1e-9) || !(rq >= 1) || !(rq < 1e9))
-                {
-                    if (!durViol[subEps])
-                        sink.viol("C02:duration-not-multiple:" + P + cls,
-                                  base().u("control_index", i).num("duration", durs[i]).num("ratio", q));
-                    durViol[subEps] = true;
-                    continue;  // nothing sensible to replay for this control
-                }
-                const long n = (long)rq;
-                if ((unsigned long)n < minD)
-                    sink.count("c02_controls_below_min_duration");
-                if ((unsigned long)n > maxD)
-                    sink.count("c02_controls_above_max_duration");
-                const double *u = controls[i]->as<oc::RealVectorControlSpace::ControlType>()->values;
-                for (int d = 0; d < 2; ++d)
-                {
-                    const double mlo = std::numeric_limits<double>::epsilon() + 4 * ulp(sys.clo[d]);
-                    const double mhi = std::numeric_limits<double>::epsilon() + 4 * ulp(sys.chi[d]);
-                    if (!(u[d] >= sys.clo[d] - mlo && u[d] <= sys.chi[d] + mhi))
-                    {
-                        if (!oobViol)
-                            sink.viol("C02:control-oob:" + P, base().u("control_index", i).i("dim", d).num("value", u[d])
-                                                                  .num("low", sys.clo[d]).num("high", sys.chi[d]));
-                        oobViol = true;
-                    }
-                }
-                // replay from the RECORDED state i, so one mismatch does not cascade
-                si->copyState(cur, states[i]);
-                long firstInvalid = -1;
-                for (long j = 0; j < n; ++j)
-                {
-                    sys.step(cur, controls[i], h, nxt);
-                    if (firstInvalid < 0 && !valid(nxt))
-                        firstInvalid = j;
-                    std::swap(cur, nxt);
-                }
-                stepsHere += n;
-                if (firstInvalid >= 0)
-                {
-                    if (!invViol)
-                        sink.viol("C02:replay-invalid-step:" + P, base().u("control_index", i).i("steps", n)
-                                                                      .i("first_invalid_step", firstInvalid + 1)
-                                                                      .arr("from", compVec(sys, states[i]))
-                                                                      .arr("control", {u[0], u[1]}));
-                    invViol = true;
-                }
-                double va[4], vb[4];
-                sys.comps(cur, va);
-                sys.comps(states[i + 1], vb);
-                double worst = 0;
-                bool bitEq = true;
-                for (unsigned d = 0; d < sys.ncomp(); ++d)
-                {
-                    if (memcmp(&va[d], &vb[d], sizeof(double)) != 0)
-                        bitEq = false;
-                    double e = std::fabs(va[d] - vb[d]);
-                    if (sk == S_CAR && d == 2 && e > M_PI)
-                        e = 2 * M_PI - e;
-                    if (!(e <= worst))
-                        worst = e;
-                }
-                sink.maxstat("c02_worst_replay_error", worst);
-                if (!(worst <= tol))
-                {
-                    if (!misViol[subEps])
-                    {
-                        // diagnosis aid: which step count would have reproduced the recorded state best
-                        long bestN = -1;
-                        double bestE = std::numeric_limits<double>::infinity();
-                        si->copyState(cur, states[i]);
-                        for (long j = 1; j <= std::max<long>(n, (long)maxD) + 5; ++j)
-                        {
-                            sys.step(cur, controls[i], h, nxt);
-                            std::swap(cur, nxt);
-                            double w2[4], e = 0;
-                            sys.comps(cur, w2);
-                            for (unsigned d = 0; d < sys.ncomp(); ++d)
-                            {
-                                double ee = std::fabs(w2[d] - vb[d]);
-                                if (sk == S_CAR && d == 2 && ee > M_PI)
-                                    ee = 2 * M_PI - ee;
-                                e = std::max(e, ee);
-                            }
-                            if (e < bestE)
-                                bestE = e, bestN = j;
-                        }
-                        // and one long step of n*h
-                        si->copyState(cur, states[i]);
-                        sys.step(cur, controls[i], durs[i], nxt);
-                        double w3[4], eLong = 0;
-                        sys.comps(nxt, w3);
-                        for (unsigned d = 0; d < sys.ncomp(); ++d)
-                            eLong = std::max(eLong, std::fabs(w3[d] - vb[d]));
-                        sink.viol("C02:replay-mismatch:" + P + cls,
-                                  base().u("control_index", i).u("controls", controls.size()).i("steps", n)
-                                      .num("error", worst).num("tolerance", tol)
-                                      .arr("from", compVec(sys, states[i])).arr("control", {u[0], u[1]})
-                                      .arr("recorded_next", compVec(sys, states[i + 1]))
-                                      .arr("replayed_next", std::vector<double>(va, va + sys.ncomp()))
-                                      .i("best_matching_step_count", bestN).num("error_at_best", bestE)
-                                      .num("error_of_single_long_step", eLong));
-                    }
-                    misViol[subEps] = true;
-                }
-                else
-                {
-                    sink.count(bitEq ? "c02_replay_bitwise_equal" : "c02_replay_tolerance_equal_only");
-                    if (!bitEq)
-                        sink.count("c02_replay_tolerance_equal_only:" + P + cls);
-                }
-                sink.count("c02_controls_replayed");
-                if (n >= 2)
-                {
-                    sink.count("c02_multistep_controls");
-                    if (sk == S_DINT)
-                    {
-                        // sensitivity of the oracle: would one long Euler step have been told apart?
-                        si->copyState(cur, states[i]);
-                        sys.step(cur, controls[i], durs[i], nxt);
-                        double w3[4], eLong = 0;
-                        sys.comps(nxt, w3);
-                        for (unsigned d = 0; d < 4; ++d)
-                            eLong = std::max(eLong, std::fabs(w3[d] - vb[d]));
-                        if (eLong > tol)
-                            sink.count("c02_dint_controls_where_long_step_differs");
-                    }
-                }
-            }
-            sink.count("c02_steps_replayed", stepsHere);
-            sink.maxstat("c02_max_controls_in_path", (double)controls.size());
-
-            // last state vs goal
-            const ob::State *last = states.back();
-            auto *gr = dynamic_cast<ob::GoalRegion *>(pdef->getGoal().get());
-            if (!approx)
-            {
-                sink.count("c02_goal_checks_exact");
-                if (!pdef->getGoal()->isSatisfied(last))
-                    sink.viol("C02:goal-not-satisfied:" + P,
-                              base().arr("last", compVec(sys, last)).num("distanceGoal", gr ? gr->distanceGoal(last) : -1.)
-                                  .arr("goal_xy", {gx, gy}));
-            }
-            else
-            {
-                sink.count("c02_goal_checks_approx");
-                const double dg = gr->distanceGoal(last);
-                if (!(std::fabs(sol.difference_ - dg) <= tol))
-                    sink.viol("C02:approx-difference:" + P, base().num("reported_difference", sol.difference_)
-                                                                .num("distanceGoal_last", dg)
-                                                                .arr("last", compVec(sys, last)));
-                if (pdef->getGoal()->isSatisfied(last))
-                    sink.count("c02_approx_flag_but_goal_satisfied");
-            }
-            // the interpolated form (PathControl::interpolate(): one control per propagation step) is the library's own way of
-            // applying the recorded controls for their recorded durations: one state per step, every duration one step, same end
-            if (!durViol[0] && !durViol[1] && !misViol[0] && !misViol[1] && !controls.empty())
-            {
-                oc::PathControl ip(*path);
-                ip.interpolate();
-                sink.count("c02_interpolated_forms_checked");
-                std::string bad;
-                if ((long)ip.getStateCount() != 1 + stepsHere || (long)ip.getControlCount() != stepsHere)
-                    bad = "state/control count differs from the number of recorded steps";
-                else
-                {
-                    for (double d : ip.getControlDurations())
-                        if (!(std::fabs(d - h) <= 1e-9 * h)) bad = "a duration of the interpolated form is not one step";
-                    double va[4], vb[4];
-                    sys.comps(ip.getState(ip.getStateCount() - 1), va);
-                    sys.comps(last, vb);
-                    for (unsigned d = 0; d < sys.ncomp() && bad.empty(); ++d)
-                    {
-                        double e = std::fabs(va[d] - vb[d]);
-                        if (sk == S_CAR && d == 2 && e > M_PI) e = 2 * M_PI - e;
-                        if (!(e <= tol)) bad = "the interpolated form ends at a different state";
-                    }
-                }
-                if (!bad.empty())
-                    sink.viol("C02:interpolated-form:PathControl", base().str("what", bad).i("recorded_steps", stepsHere).u("interpolated_states", ip.getStateCount())
-                                                                       .u("controls", controls.size()).num("step_size", h).str("planner", P));
-            }
-            if (controls.size() >= 2)
-            {
+            if (rep.controls >= 2)
                 nontrivial = true;
-                sink.count("c02_replayed:" + P);
-                sink.count("c02_replayed_sys:" + S);
-                sink.count("c02_replayed:" + P + ":" + S);
-            }
-            else
-                sink.count("c02_short_paths_lt2_controls");
             if (nontrivial && k == 0)
-                sink.sample(base().u("controls", controls.size()).i("steps", stepsHere).b("approximate", approx)
+            {
+                auto *path = static_cast<oc::PathControl *>(sol.path_.get());
+                const auto &controls = path->getControls();
+                sink.sample(base().u("controls", controls.size()).i("steps", rep.steps).b("approximate", sol.approximate_)
                                 .num("difference", sol.difference_).arr("world", {w.x0, w.y0, w.W, w.H})
                                 .arr("start_xy", {sx, sy}).arr("goal_xy", {gx, gy})
                                 .arr("control_low", {sys.clo[0], sys.clo[1]}).arr("control_high", {sys.chi[0], sys.chi[1]})
                                 .arr("first_control", {controls[0]->as<oc::RealVectorControlSpace::ControlType>()->values[0],
                                                        controls[0]->as<oc::RealVectorControlSpace::ControlType>()->values[1]})
-                                .num("first_duration", durs[0]).arr("last", compVec(sys, last)));
+                                .num("first_duration", path->getControlDurations()[0]).arr("last", compVec(sys, path->getStates().back())));
+            }
         }
-        si->freeState(cur);
-        si->freeState(nxt);
         sink.noteCase(hash, nontrivial);
+    }
+
+    // ======================================================================================================================
+    // C03 (control planners): interruption at every evaluation index, resumed solves, clear / new-query histories, and the
+    // memory clause on state- and control-counting spaces.  Mirrors c03 of h_planners.cpp.
+    // ======================================================================================================================
+
+    // the evaluation-counting termination condition of C02 (evaluation limit, propagation cap, "an exact solution was
+    // registered") as an object that also records how often it was evaluated after it first fired; it stays true once fired
+    struct EvalCond
+    {
+        unsigned long evals = 0, after = 0, limit;
+        bool fired = false, stopOnExact;
+        const ob::ProblemDefinition *pd;
+        const PropStats *ps;
+        long callsAtStart, callAllowance;
+        ob::PlannerTerminationCondition ptc;
+        EvalCond(unsigned long limit_, bool stopOnExact_, const ob::ProblemDefinition *pd_, const PropStats *ps_, long callAllowance_)
+          : limit(limit_), stopOnExact(stopOnExact_), pd(pd_), ps(ps_), callsAtStart(ps_->calls), callAllowance(callAllowance_)
+          , ptc([this] { return eval(); })
+        {
+        }
+        EvalCond(const EvalCond &) = delete;
+        bool eval()
+        {
+            vf::heartbeat();
+            ++evals;
+            if (fired)
+            {
+                ++after;
+                return true;
+            }
+            if (evals > limit || ps->calls - callsAtStart > callAllowance || (stopOnExact && pd->hasExactSolution()))
+                fired = true;
+            return fired;
+        }
+    };
+
+    const char *statusName(const ob::PlannerStatus &st)
+    {
+        static std::string s;
+        s = st.asString();
+        return s.c_str();
+    }
+
+    // everything one C03 scope owns; destroyed in reverse order of declaration: planner, queries, scenario.  The trackers
+    // are held by the caller and outlive it.
+    struct C3Scope
+    {
+        std::unique_ptr<Scen> sc;
+        std::unique_ptr<Query> q;
+        ob::PlannerPtr planner;
+    };
+
+    struct C3
+    {
+        Sink &sink;
+        std::string P, subj, S;
+        uint64_t scenSeed = 0;
+        uint32_t libSeed = 0;
+        std::string hist;     // calls made so far in this scope
+        bool dirty = false;   // a new problem definition was given to a planner that still held its previous query
+        J detail(const std::string &what) const
+        {
+            J j;
+            j.str("planner", subj).str("system", S).str("what", what).str("history", hist).u("lib_seed", libSeed);
+            j.str("scenario_seed", std::to_string(scenSeed)).b("after_setProblemDefinition_without_clear", dirty);
+            return j;
+        }
+        void viol(const std::string &clause, const J &d) const { sink.viol("C03:" + clause + ":" + subj, d); }
+    };
+
+    struct CallResult
+    {
+        ob::PlannerStatus status = ob::PlannerStatus::UNKNOWN;
+        bool threw = false;
+        std::string what;
+        std::vector<ob::PlannerSolution> added;
+        unsigned long evals = 0, after = 0;
+    };
+
+    // builds world, system, first query and planner of a scenario from one seed (deterministic: the same seed and library
+    // seed give the same scenario and the same planner run).  Returns "" or the reason why there is none.
+    std::string buildScope(C3Scope &s, uint64_t scenSeed, int pl, int sk, const Args &a, const std::shared_ptr<Tracker> &stTr,
+                           const std::shared_ptr<Tracker> &ctTr, Rng &rng, bool withPlanner = true)
+    {
+        s.sc.reset(new Scen());
+        Scen &sc = *s.sc;
+        sc.pl = pl, sc.sk = sk, sc.P = PLANNERS[pl], sc.S = SYSTEMS[sk];
+        sc.thorough = a.thorough();
+        sc.slowfrac = 0.0;  // creeping systems are C02's business
+        sc.stTr = stTr, sc.ctTr = ctTr;
+        sc.hash = scenSeed;
+        if (!sc.genWorld(rng))
+            return "world-generation";
+        sc.genSystem(rng);
+        s.q.reset(new Query());
+        s.q->p = sc.pos;
+        sc.genQuery(rng, *s.q);
+        if (!withPlanner)
+            return "";
+        try
+        {
+            s.planner = sc.makePlanner(rng, s.q->pdef);
+        }
+        catch (std::exception &e)
+        {
+            return std::string("setup-exception:") + sc.P;
+        }
+        return "";
+    }
+
+    // one solve() call under the status / solution-set oracle; every path the call added goes through the replay oracle
+    CallResult solveCall(C3 &cx, C3Scope &s, unsigned long limit, bool stopOnExact, const std::string &what)
+    {
+        CallResult r;
+        Sink &sink = cx.sink;
+        Scen &sc = *s.sc;
+        Query &q = *s.q;
+        const auto &pdef = q.pdef;
+        std::set<const ob::Path *> before;
+        const std::vector<ob::PlannerSolution> beforeSols = pdef->getSolutions();  // keeps the paths alive: addresses stay unique
+        for (auto &x : beforeSols) before.insert(x.path_.get());
+        EvalCond e(limit, stopOnExact, pdef.get(), &sc.sys.ps, std::max(sc.callCap() / 2, 20000l));
+        try
+        {
+            r.status = s.planner->solve(e.ptc);
+        }
+        catch (const std::exception &ex)
+        {
+            r.threw = true;
+            r.what = ex.what();
+        }
+        r.evals = e.evals;
+        r.after = e.after;
+        for (auto &x : pdef->getSolutions())
+            if (!before.count(x.path_.get())) r.added.push_back(x);
+        sink.count("c03c_solve_calls");
+        sink.count("c03c_ptc_evaluations", (long long)r.evals);
+        sink.maxstat("c03c_max_evaluations_after_fire", (double)r.after);
+        auto detail = [&](const std::string &w) {
+            return cx.detail(w).str("call", what).u("limit", limit).u("evals", r.evals).u("evals_after_fire", r.after)
+                .str("status", r.threw ? "exception" : statusName(r.status));
+        };
+        if (r.threw)
+        {
+            sink.count("c03c_solve_threw:" + cx.P);
+            if (!r.added.empty()) cx.viol("exception-added-path", detail("solve() threw but added a solution path").str("exception", r.what));
+            return r;
+        }
+        // (a) bounded number of further evaluations
+        if (r.after > 64)
+            cx.viol("evaluations-after-termination", detail("solve() kept evaluating the termination condition after it fired"));
+        sink.count(std::string("c03c_status:") + statusName(r.status));
+        // (b) the status describes the call that returned it
+        const bool solStatus = r.status == ob::PlannerStatus::EXACT_SOLUTION || r.status == ob::PlannerStatus::APPROXIMATE_SOLUTION;
+        if (solStatus && r.added.empty())
+        {
+            if (pdef->getSolutionCount() == 0)
+                cx.viol("status-without-path", detail("solution status but the problem definition holds no solution path"));
+            else
+                sink.count("c03c_solution_status_without_new_path");
+        }
+        if (!solStatus && !r.added.empty())
+            cx.viol("nonsolution-added-path", detail("non-solution status but a path was added").u("added", r.added.size()));
+        if (r.status == ob::PlannerStatus::EXACT_SOLUTION && !pdef->hasExactSolution())
+            cx.viol("exact-status-no-exact-solution", detail("status EXACT_SOLUTION but the problem definition holds no exact solution"));
+        // (c) every added path: the complete replay oracle of C02, for the query the planner was asked
+        OracleOut out{sink, "C03:solution-", cx.subj, cx.subj, "c03c_",
+                      [&]() {
+                          J j = detail("path added by this call");
+                          j.num("step", sc.h).u("min_steps", sc.minD).u("max_steps", sc.maxD).i("goal_kind", q.goalKind);
+                          j.num("threshold", q.thr).u("n_obstacles", sc.w.obs.size()).arr("start_xy", {q.p.sx, q.p.sy});
+                          j.arr("goal_xy", {q.p.gx, q.p.gy});
+                          return j;
+                      },
+                      [&](const std::string &clause) {
+                          // after setProblemDefinition(new) without clear(): end points of the previous query are symptoms
+                          // of one root cause (the planner did not forget it) and share one key per planner
+                          if (cx.dirty && (clause == "start-state" || clause == "goal-not-satisfied" || clause == "approx-difference"))
+                              return "C03:stale-query-after-setProblemDefinition:" + cx.subj;
+                          return std::string();
+                      }};
+        for (auto &sol : r.added)
+        {
+            const PathReport rep = checkPath(sc, q, sol, r.status, out);
+            sink.count("c03c_paths_replayed");
+            if (rep.examined)
+                sink.count("c03c_paths_replayed:" + cx.P);
+        }
+        // top-ranked solution vs accessor agreement
+        const auto sols = pdef->getSolutions();
+        if (!sols.empty() && (pdef->hasApproximateSolution() != sols[0].approximate_ || pdef->getSolutionDifference() != sols[0].difference_))
+            cx.viol("top-accessors", detail("hasApproximateSolution/getSolutionDifference disagree with the top-ranked solution"));
+        return r;
+    }
+
+    // (d) a resumed solve() keeps or improves what the problem definition reports
+    void resumeCheck(C3 &cx, const std::vector<ob::PlannerSolution> &before, const std::vector<ob::PlannerSolution> &after)
+    {
+        if (before.empty()) return;
+        cx.sink.count("c03c_resume_checks");
+        bool exactBefore = false, exactAfter = false;
+        for (auto &x : before) exactBefore |= !x.approximate_;
+        for (auto &x : after) exactAfter |= !x.approximate_;
+        if (after.empty())
+            cx.viol("solution-lost", cx.detail("resumed solve() lost the reported solution"));
+        else if (exactBefore && !exactAfter)
+            cx.viol("resume-worse", cx.detail("an exact solution was held before the resumed solve() but none afterwards"));
+        else if (!before[0].approximate_ && after[0].approximate_)
+            cx.viol("resume-worse", cx.detail("exact top-ranked solution replaced by an approximate one after resumed solve()"));
+        else if (before[0].approximate_ && after[0].approximate_ && after[0].difference_ > before[0].difference_)
+            cx.viol("resume-worse", cx.detail("difference of the top-ranked approximate solution got larger after resumed solve()")
+                                        .num("before", before[0].difference_).num("after", after[0].difference_));
+    }
+
+    // memory clause: call after the whole scope (planner, problem definitions, paths, planner data) has been destroyed
+    void leakCheck(C3 &cx, const Tracker &stTr, const Tracker &ctTr, bool exported)
+    {
+        cx.sink.count("c03c_leak_scopes_checked");
+        cx.sink.count("c03c_states_allocated", stTr.allocs);
+        cx.sink.count("c03c_controls_allocated", ctTr.allocs);
+        const std::string sfx = exported ? "-after-getPlannerData" : "";
+        if (stTr.liveCount() > 0)
+            cx.viol("leak-states" + sfx, cx.detail("states still allocated after planner, problem definition, paths and planner data were destroyed")
+                                            .i("leaked", stTr.liveCount()).i("allocated", stTr.allocs));
+        if (ctTr.liveCount() > 0)
+            cx.viol("leak-controls" + sfx, cx.detail("controls still allocated after planner, problem definition, paths and planner data were destroyed")
+                                              .i("leaked", ctTr.liveCount()).i("allocated", ctTr.allocs));
+        if (stTr.badFrees > 0)
+            cx.viol("bad-free", cx.detail("freeState() called on a pointer that is not a live state (double free)").i("n", stTr.badFrees));
+        if (ctTr.badFrees > 0)
+            cx.viol("bad-free", cx.detail("freeControl() called on a pointer that is not a live control (double free)").i("n", ctTr.badFrees));
+    }
+
+    unsigned long c03Budget(const Scen &sc, Rng &rng, const Args &a)
+    {
+        const unsigned long drawn = sc.drawBudget(rng);
+        return std::min<unsigned long>(drawn, a.thorough() ? 8000ul : 5000ul);
+    }
+
+    void c03Interrupt(Sink &sink, const Args &a, long c, int pl, long block, long combo, int nblocks, int blockSize)
+    {
+        const std::string P = PLANNERS[pl];
+        const int sk = (int)((pl + combo) % 3);
+        const uint32_t libSeed = (uint32_t)(caseSeed(a, c, 1) % 1000000000ULL + 1);
+        // the scenario belongs to (planner, combo): all blocks of k interrupt the same problem.  Scenarios without a usable
+        // query (only invalid start states; Syclop without a sampleable goal) are left to the history part.
+        uint64_t scenSeed = 0;
+        unsigned long budget = 0;
+        bool have = false;
+        for (int salt = 0; salt < 50 && !have; ++salt)
+        {
+            scenSeed = hmix(hmix(hmix(splitmix(a.seed), 0xC03C), (uint64_t)(pl * 100 + combo)), (uint64_t)salt);
+            Rng r(scenSeed);
+            C3Scope s;
+            ompl::RNG::setSeed(libSeed);
+            if (!buildScope(s, scenSeed, pl, sk, a, nullptr, nullptr, r, true).empty()) continue;
+            if (s.q->onlyInvalidStarts) continue;
+            if ((pl == P_SYRRT || pl == P_SYEST) && s.q->goalKind == 2) continue;
+            budget = c03Budget(*s.sc, r, a);
+            have = true;
+        }
+        if (!have)
+        {
+            sink.inconclusive("c03-no-scenario");
+            sink.noteCase(0, false);
+            return;
+        }
+        C3 cx{sink, P, "control::" + P, SYSTEMS[sk], scenSeed, libSeed, "", false};
+        // one scope: fresh scenario + planner from the same seeds
+        auto fresh = [&](C3Scope &s, const std::shared_ptr<Tracker> &stTr, const std::shared_ptr<Tracker> &ctTr) {
+            Rng r(scenSeed);
+            ompl::RNG::setSeed(libSeed);
+            return buildScope(s, scenSeed, pl, sk, a, stTr, ctTr, r, true).empty();
+        };
+        std::vector<long> ks;
+        long K1 = -1;
+        if (block < nblocks - 1)
+            for (long k = block * blockSize; k < (block + 1) * blockSize; ++k) ks.push_back(k);
+        else
+        {
+            // calibration: evaluation index at which the run first holds an exact solution
+            {
+                C3Scope s;
+                if (fresh(s, nullptr, nullptr))
+                {
+                    EvalCond e(budget, true, s.q->pdef.get(), &s.sc->sys.ps, std::max(s.sc->callCap() / 2, 20000l));
+                    try
+                    {
+                        s.planner->solve(e.ptc);
+                        if (s.q->pdef->hasExactSolution()) K1 = (long)e.evals;
+                    }
+                    catch (const std::exception &)
+                    {
+                    }
+                }
+            }
+            const long base = (long)(nblocks - 1) * blockSize;
+            for (long k = base; k < (long)budget + 50; k = (long)(k * 1.35) + 1) ks.push_back(k);
+            if (K1 > 0)
+                for (long d = -2; d <= 2; ++d)
+                    if (K1 + d >= 0) ks.push_back(K1 + d);
+            sink.count(K1 > 0 ? "c03c_calibrated" : "c03c_calibration_no_solution");
+            if (K1 > 0) sink.maxstat("c03c_max_K1", (double)K1);
+        }
+        long calls = 0;
+        for (long k : ks)
+        {
+            auto stTr = std::make_shared<Tracker>(), ctTr = std::make_shared<Tracker>();
+            cx.hist = "interrupt@" + std::to_string(k);
+            cx.dirty = false;
+            const long violBefore = sink.violTotal();
+            {
+                C3Scope s;
+                if (!fresh(s, stTr, ctTr))
+                {
+                    sink.count("c03c_setup_threw:" + P);
+                    break;
+                }
+                CallResult r = solveCall(cx, s, (unsigned long)k, true, "interrupted solve");
+                ++calls;
+                sink.count("c03c_interrupted_solves");
+                sink.count("c03c_interrupted:" + P);
+                if (!r.added.empty()) sink.count("c03c_interrupted_with_solution");
+                if (s.q->pdef->hasExactSolution()) sink.count("c03c_interrupted_with_exact_solution");
+                // every fourth k: a resumed solve() with a normal budget on the same planner
+                if (k % 4 == 1 && !r.threw)
+                {
+                    cx.hist += ",solve";
+                    const auto before = s.q->pdef->getSolutions();
+                    CallResult r2 = solveCall(cx, s, std::max(200ul, budget / 3), !s.q->pdef->hasExactSolution(), "resumed solve");
+                    ++calls;
+                    sink.count("c03c_resumed_solves");
+                    if (!r2.added.empty()) sink.count("c03c_resumed_with_new_path");
+                    if (!r2.threw) resumeCheck(cx, before, s.q->pdef->getSolutions());
+                }
+            }
+            // a leak is found when a scope ends: it is not a consequence of an earlier violation and the scopes of later k are
+            // independent of it, so unlike the other clauses it does not end the enumeration
+            const bool otherViolation = sink.violTotal() != violBefore;
+            leakCheck(cx, *stTr, *ctTr, false);
+            if (otherViolation) break;  // one witness per case; later k would repeat the same cause
+        }
+        sink.noteCase(hmix(caseSeed(a, c, 2), (uint64_t)(block * 131 + combo * 8 + pl)), calls >= 2);
+        if (block == 0 || block == nblocks - 1)
+            sink.sample(J().str("kind", "C03 control interruption block").str("planner", cx.subj).str("system", SYSTEMS[sk])
+                            .i("k_from", ks.empty() ? -1 : ks.front()).i("k_to", ks.empty() ? -1 : ks.back()).i("K1", K1)
+                            .u("budget", budget).i("solve_calls", calls), 6);
+    }
+
+    const char *OPN[] = {"solve", "solve0", "clear", "clearQuery", "clear+setProblemDefinition", "setProblemDefinition",
+                         "getPlannerData", "newQueryOnPdef+clear"};
+    enum
+    {
+        OP_SOLVE,
+        OP_SOLVE0,
+        OP_CLEAR,
+        OP_CLEARQUERY,
+        OP_NEWPDEF_CLEAR,
+        OP_NEWPDEF,
+        OP_PDATA,
+        OP_SAMEPDEF_CLEAR,
+        OP_N
+    };
+
+    void c03History(Sink &sink, const Args &a, long c, int pl, long hidx)
+    {
+        const std::string P = PLANNERS[pl];
+        const int sk = (int)((pl + hidx) % 3);
+        const uint32_t libSeed = (uint32_t)(caseSeed(a, c, 1) % 1000000000ULL + 1);
+        const uint64_t scenSeed = caseSeed(a, c);
+        Rng rng(scenSeed);
+        C3 cx{sink, P, "control::" + P, SYSTEMS[sk], scenSeed, libSeed, "", false};
+        auto stTr = std::make_shared<Tracker>(), ctTr = std::make_shared<Tracker>();
+        bool exported = false;
+        int nsolves = 0, nops = 0;
+        {
+            C3Scope s;
+            ompl::RNG::setSeed(libSeed);
+            const std::string why = buildScope(s, scenSeed, pl, sk, a, stTr, ctTr, rng, true);
+            if (!why.empty())
+            {
+                sink.inconclusive("c03-" + why);
+                sink.noteCase(0, false);
+                return;
+            }
+            Scen &sc = *s.sc;
+            const unsigned long budget = c03Budget(sc, rng, a);
+            int len = 2 + (int)rng.ui(7);
+            // the first two histories of every planner are fixed:
+            //   0: solve, switch the problem definition without clear(), solve
+            //   1: solve, clear(), setProblemDefinition(new), solve, clear(), clear(), getPlannerData()
+            static const int H0[] = {OP_SOLVE, OP_NEWPDEF, OP_SOLVE};
+            static const int H1[] = {OP_SOLVE, OP_CLEAR, OP_NEWPDEF, OP_SOLVE, OP_CLEAR, OP_CLEAR, OP_PDATA};
+            const int *fixedOps = hidx == 0 ? H0 : hidx == 1 ? H1 : nullptr;
+            if (hidx == 0) len = 3;
+            if (hidx == 1) len = 7;
+            bool clean = true;  // the planner holds nothing of an earlier query (fresh, or cleared since the last solve())
+            const long violBefore = sink.violTotal();
+            bool abandoned = false;
+            // a new query in the same world; false if no positions could be placed
+            auto newQuery = [&](const ob::ProblemDefinitionPtr &into) {
+                Pos p;
+                if (!sc.drawPositions(rng, p)) return false;
+                if (into)
+                {
+                    into->clearSolutionPaths();
+                    s.q->p = p;
+                    sc.genQuery(rng, *s.q, into);
+                }
+                else
+                {
+                    std::unique_ptr<Query> nq(new Query());
+                    nq->p = p;
+                    sc.genQuery(rng, *nq);
+                    sc.applyObjective(nq->pdef);
+                    s.q = std::move(nq);  // the previous problem definition goes away, as in user code that replaces it
+                }
+                sink.count("c03c_new_queries");
+                return true;
+            };
+            for (int step = 0; step < len && !abandoned; ++step)
+            {
+                int op = step == 0 ? OP_SOLVE : (int)rng.ui(OP_N);
+                if (fixedOps) op = fixedOps[step];
+                cx.hist += std::string(cx.hist.empty() ? "" : ",") + OPN[op];
+                sink.count(std::string("c03c_op_") + OPN[op]);
+                ++nops;
+                // flushed before the operation runs: a crash witness then tells which history led to it
+                sink.rawLine(J().str("t", "info").str("history", cx.hist).b("dirty_switch", cx.dirty).done());
+                try
+                {
+                    switch (op)
+                    {
+                        case OP_SOLVE:
+                        case OP_SOLVE0:
+                        {
+                            const auto before = s.q->pdef->getSolutions();
+                            const unsigned long limit = op == OP_SOLVE0 ? 0ul : std::max(50ul, (unsigned long)(budget * rng.uni(0.1, 0.6)));
+                            CallResult r = solveCall(cx, s, limit, !s.q->pdef->hasExactSolution(), OPN[op]);
+                            ++nsolves;
+                            if (cx.dirty) sink.count("c03c_solves_after_dirty_switch");
+                            if (clean) sink.count("c03c_first_like_solves");
+                            if (!r.threw) resumeCheck(cx, before, s.q->pdef->getSolutions());
+                            clean = false;
+                            break;
+                        }
+                        case OP_CLEAR:
+                        {
+                            s.planner->clear();
+                            if (!fixedOps && rng.coin(0.3)) s.planner->clear();  // clear() is idempotent
+                            oc::PlannerData pd(sc.si);
+                            s.planner->getPlannerData(pd);
+                            if (pd.numVertices() != 0)
+                                cx.viol("plannerdata-after-clear", cx.detail("getPlannerData() not empty after clear()").u("vertices", pd.numVertices()));
+                            sink.count("c03c_clear_checks");
+                            clean = true;
+                            cx.dirty = false;
+                            s.q->pdef->clearSolutionPaths();
+                            break;
+                        }
+                        case OP_CLEARQUERY:
+                            s.planner->clearQuery();
+                            clean = true;
+                            cx.dirty = false;
+                            break;
+                        case OP_NEWPDEF_CLEAR:
+                            s.planner->clear();
+                            if (!newQuery(nullptr))
+                            {
+                                abandoned = true;
+                                break;
+                            }
+                            s.planner->setProblemDefinition(s.q->pdef);
+                            clean = true;
+                            cx.dirty = false;
+                            break;
+                        case OP_NEWPDEF:
+                            if (!newQuery(nullptr))
+                            {
+                                abandoned = true;
+                                break;
+                            }
+                            s.planner->setProblemDefinition(s.q->pdef);
+                            if (!clean)
+                            {
+                                cx.dirty = true;
+                                sink.count("c03c_dirty_switches");
+                            }
+                            break;
+                        case OP_PDATA:
+                        {
+                            // alternately with and without control information on the edges
+                            std::unique_ptr<ob::PlannerData> pd;
+                            if (rng.coin()) pd.reset(new oc::PlannerData(sc.si));
+                            else pd.reset(new ob::PlannerData(sc.si));
+                            s.planner->getPlannerData(*pd);
+                            // every vertex is a state of this space; touching them lets ASan see stale pointers
+                            for (unsigned i = 0; i < pd->numVertices(); ++i)
+                            {
+                                const ob::State *st = pd->getVertex(i).getState();
+                                if (st) (void)sc.sys.space->satisfiesBounds(st);
+                            }
+                            pd->decoupleFromPlanner();
+                            sink.count("c03c_plannerdata_vertices", pd->numVertices());
+                            sink.count("c03c_plannerdata_edges", pd->numEdges());
+                            exported = true;
+                            break;
+                        }
+                        case OP_SAMEPDEF_CLEAR:
+                            // the same problem definition object gets new start states and a new goal, then clear()
+                            if (!newQuery(s.q->pdef))
+                            {
+                                abandoned = true;
+                                break;
+                            }
+                            s.planner->clear();
+                            clean = true;
+                            cx.dirty = false;
+                            break;
+                    }
+                }
+                catch (const std::exception &ex)
+                {
+                    sink.count("c03c_history_op_threw:" + P);
+                    abandoned = true;
+                }
+                if (sink.violTotal() != violBefore) abandoned = true;  // consequences are not causes
+            }
+        }
+        leakCheck(cx, *stTr, *ctTr, exported);
+        sink.count("c03c_histories");
+        sink.count("c03c_history_ops", nops);
+        sink.noteCase(hmix(caseSeed(a, c, 2), hashStr(cx.hist + P)), nops >= 2);
+        sink.sample(J().str("kind", "C03 control history").str("planner", cx.subj).str("system", SYSTEMS[sk]).str("ops", cx.hist)
+                        .i("solve_calls", nsolves), 6);
+    }
+
+    int c03Blocks(const Args &a) { return a.thorough() ? 25 : 7; }   // k = 0..(nblocks-1)*16-1 exhaustively + one calibrated block
+    int c03Combos(const Args &a) { return a.thorough() ? 3 : 2; }
+    int c03Histories(const Args &a) { return a.thorough() ? 50 : 10; }
+
+    // global numbering: 8 consecutive cases = the 8 planner variants at one index; the planner is rotated by index/2 so that
+    // every shard (c mod nshards) sees every planner
+    void c03(Sink &sink, const Args &a, long c)
+    {
+        const long g = c / 8;
+        const int pl = (int)((c % 8 + g / 2) % 8);
+        sink.subject(std::string("control::") + PLANNERS[pl]);
+        const int blockSize = 16;
+        const int nblocks = c03Blocks(a), ncombos = c03Combos(a);
+        const long nInterrupt = (long)nblocks * ncombos;
+        if (g < nInterrupt)
+            c03Interrupt(sink, a, c, pl, g % nblocks, g / nblocks, nblocks, blockSize);
+        else
+            c03History(sink, a, c, pl, g - nInterrupt);
+    }
+
+    // ======================================================================================================================
+    // C20 (control planners): fingerprints; every case runs in a fresh process (see main) and the driver compares the
+    // fingerprints of replica processes by name
+    // ======================================================================================================================
+    void emitFp(const Args &a, const std::string &name, uint64_t h)
+    {
+        FILE *f = fopen(a.out.c_str(), "a");
+        if (!f) return;
+        fprintf(f, "{\"t\":\"fp\",\"name\":\"%s\",\"h\":\"%016llx\"}\n", jesc(name).c_str(), (unsigned long long)h);
+        fclose(f);
+    }
+
+    uint64_t pathFingerprint(const Scen &sc, const ob::PathPtr &p)
+    {
+        auto *path = dynamic_cast<oc::PathControl *>(p.get());
+        uint64_t h = 1469598103934665603ULL;
+        if (!path) return h;
+        std::vector<unsigned char> sbuf(sc.sys.space->getSerializationLength()), cbuf(sc.sys.cspace->getSerializationLength());
+        for (size_t i = 0; i < path->getStateCount(); ++i)
+        {
+            std::fill(sbuf.begin(), sbuf.end(), 0);
+            sc.sys.space->serialize(sbuf.data(), path->getState(i));
+            h = hashBytes(sbuf.data(), sbuf.size(), h);
+        }
+        for (size_t i = 0; i < path->getControlCount(); ++i)
+        {
+            std::fill(cbuf.begin(), cbuf.end(), 0);
+            sc.sys.cspace->serialize(cbuf.data(), path->getControl(i));
+            h = hashBytes(cbuf.data(), cbuf.size(), h);
+            const double d = path->getControlDuration(i);
+            h = hashBytes(&d, sizeof d, h);
+        }
+        return hmix(hmix(h, path->getStateCount()), path->getControlCount());
+    }
+
+    // runs in a FRESH process: the seed is set before any generator exists
+    void c20Case(Sink &sink, const Args &a, long c)
+    {
+        const long widx = c / 8;
+        const int pl = (int)((c % 8 + widx / 2) % 8);
+        const int sk = (int)(widx % 3);
+        const std::string P = PLANNERS[pl], subj = "control::" + P;
+        uint64_t seed = caseSeed(a, c, 1) % 1000000000ULL + 1;
+        // seed 0 is special-cased by the library ("cannot be 0, using 1 instead"): still one fixed stream in every process
+        if (c % 5 == 3) seed = 0;
+        ompl::RNG::setSeed(seed);
+        sink.subject(subj);
+        const std::string name = "planner:" + subj + ":w" + std::to_string(widx);
+        Rng rng(caseSeed(a, c));
+        C3Scope s;
+        const std::string why = buildScope(s, caseSeed(a, c), pl, sk, a, nullptr, nullptr, rng, true);
+        if (!why.empty())
+        {
+            // no run: the name still has to exist in every replica
+            emitFp(a, name, hashStr("no-run:" + why));
+            sink.inconclusive("c20-" + why);
+            sink.noteCase(0, false);
+            return;
+        }
+        Scen &sc = *s.sc;
+        const unsigned long budget = sc.drawBudget(rng);
+        try
+        {
+            EvalCond e(budget, true, s.q->pdef.get(), &sc.sys.ps, sc.callCap());
+            ob::PlannerStatus st = s.planner->solve(e.ptc);
+            uint64_t h = hmix((uint64_t)(ob::PlannerStatus::StatusType)st, s.q->pdef->getSolutionCount());
+            for (auto &sol : s.q->pdef->getSolutions())
+            {
+                h = hmix(h, pathFingerprint(sc, sol.path_));
+                h = hmix(h, (uint64_t)sol.approximate_);
+                h = hmixd(h, sol.difference_);
+            }
+            h = hmix(h, (uint64_t)e.evals);
+            h = hmix(h, (uint64_t)sc.sys.ps.calls);
+            emitFp(a, name, h);
+            sink.count("c20c_planner_runs");
+            sink.count("c20c_planner_runs:" + P);
+            sink.count("c20c_ptc_evaluations", (long long)e.evals);
+            if (s.q->pdef->getSolutionCount() > 0) sink.count("c20c_planner_runs_with_solution");
+            if (s.q->pdef->hasExactSolution()) sink.count("c20c_planner_runs_with_exact_solution");
+            sink.noteCase(hmix(sc.hash, hashStr(P)), s.q->pdef->getSolutionCount() > 0);
+            sink.sample(J().str("kind", "C20 control planner run").str("planner", subj).str("system", SYSTEMS[sk]).str("status", statusName(st))
+                            .u("solutions", s.q->pdef->getSolutionCount()).u("evaluations", e.evals).u("lib_seed", seed)
+                            .str("fingerprint", std::to_string(h)));
+        }
+        catch (const std::exception &ex)
+        {
+            emitFp(a, name, hashStr(std::string("exception:") + ex.what()));
+            sink.count("c20c_exception:" + P);
+            sink.noteCase(0, false);
+        }
     }
 }  // namespace
 
@@ -1315,20 +2266,74 @@ int main(int argc, char **argv)
     ompl::msg::setLogLevel(ompl::msg::LOG_NONE);
     Sink sink(a);
     long total;
+    void (*fn)(Sink &, const Args &, long) = nullptr;
     if (a.prop == "C02")
-        total = a.thorough() ? 22000 : 6000;
+    {
+        total = (long)((a.thorough() ? 22000 : 6000) * a.scale);
+        fn = runCase;
+    }
+    else if (a.prop == "C03")
+    {
+        // the interruption part is a fixed enumeration; --scale multiplies the number of histories
+        total = 8L * (c03Blocks(a) * c03Combos(a) + (long)(c03Histories(a) * a.scale));
+        fn = c03;
+    }
+    else if (a.prop == "C20")
+    {
+        total = 8L * (long)((a.thorough() ? 30 : 6) * a.scale);
+        fn = c20Case;
+    }
     else
     {
         fprintf(stderr, "h_control does not serve %s\n", a.prop.c_str());
         return 2;
     }
-    total = (long)(total * a.scale);
+    const bool freshProcessPerCase = a.prop == "C20" && a.onlyCase < 0;
     for (long c = 0; c < total; ++c)
     {
         if (!mine(a, c) || !sink.wanted(c))
             continue;
+        if (freshProcessPerCase)
+        {
+            // C20: every case runs in its own process so that the global seed is set before any generator exists
+            sink.begin(c);
+            char exe[4096];
+            ssize_t n = readlink("/proc/self/exe", exe, sizeof exe - 1);
+            if (n <= 0) return 2;
+            exe[n] = 0;
+            char sc[64];
+            snprintf(sc, sizeof sc, "%.17g", a.scale);
+            std::string call = std::string(exe) + " --prop C20 --seed " + std::to_string(a.seed) + " --tier " + a.tier + " --scale " + sc +
+                               " --only-case " + std::to_string(c) + " --out " + a.out + ".child";
+            int rc = system(call.c_str());
+            // merge the child's records (fingerprints, violations, counters)
+            FILE *cf = fopen((a.out + ".child").c_str(), "r");
+            bool childDone = false;
+            if (cf)
+            {
+                char *line = nullptr;
+                size_t cap = 0;
+                while (getline(&line, &cap, cf) > 0)
+                {
+                    std::string l(line);
+                    if (l.find("\"t\":\"done\"") != std::string::npos) childDone = true;
+                    if (l.find("\"t\":\"begin\"") != std::string::npos) continue;
+                    sink.rawLine(l);
+                }
+                free(line);
+                fclose(cf);
+                remove((a.out + ".child").c_str());
+            }
+            if (rc != 0 || !childDone)
+            {
+                fprintf(stderr, "C20 child for case %ld failed rc=%d\n", c, rc);
+                return 3;  // the driver treats it as a crash of this case
+            }
+            sink.count("cases", -1);  // the child counted it
+            continue;
+        }
         sink.begin(c);
-        runCase(sink, a, c);
+        fn(sink, a, c);
     }
     sink.done();
     return 0;
